@@ -4,25 +4,28 @@ from __future__ import annotations
 import ast
 import copy
 import itertools
-import re
 
-from ..boolfn import Opaque, TableEvaluator
 from ..cfg import call_may_raise
 from ..core import Ctx
-from ..lengths import LengthAnalysis, protected
-from ..match import arg, call_name, calls, fact_of, facts_at, local_defs, same_expr, single_def, stores
-from ..model import NOCONST, AnalysisError, FuncInfo, chain, const_value, norm, strip_cast, walk_no_nested
+from ..lengths import protected
+from ..match import Fact, _atoms_with_polarity, arg, call_name, calls, fact_of, local_defs, single_def, stores, unreachable_assuming
+from ..model import (NOCONST, AnalysisError, FuncInfo, chain, clone, const_value, enclosing_function, norm, parent, strip_cast,
+                     walk_no_nested)
 
 LEVEL = "other"
 EXPLANATION = (
-    "Exhaustive over the policy abstraction and over all paths: is_allowed is evaluated for all 32 assignments of its "
-    "five atoms (bt, ipv8, BT-flag, IPV8-flag, own-prefix) and must equal (bt&BT)|(v8&V8)|(v8&own); every path of "
-    "TunnelExitSocket.sendto to transport.sendto and of datagram_received to tunnel_data passes a truthy "
-    "is_allowed(<the very data emitted>); closed sets of callers for transport.sendto / exit_socket.sendto / enable / "
-    "tunnel_data; exit_data dominated by destination != ('0.0.0.0', 0) and transport.sendto dominated by the same test on the address "
-    "actually emitted (after domain-name resolution re-entered sendto); enable() dominated by the previous-hop IP "
-    "comparison; the DataChecker classifiers are decision tables over the inspected quantities (length, byte slices, "
-    "unpacked header fields) evaluated on every region their comparisons can distinguish, with guarded reads."
+    "Exhaustive over the policy abstraction and over all feasible paths (path-sensitive walk of the CFG with a symbolic "
+    "state; calls of functions the reviewed tree does not have are followed with their parameters bound): is_allowed is "
+    "walked for all 32 assignments of its five atoms (bt, ipv8, BT-flag, IPV8-flag, own-prefix) and must return "
+    "(bt&BT)|(v8&V8)|(v8&own); every path of TunnelExitSocket.sendto to transport.sendto and of datagram_received to "
+    "tunnel_data has established a truthy is_allowed(<the very data emitted>); closed sets of callers for transport.sendto / "
+    "exit_socket.sendto / enable / tunnel_data / exit_data / join_circuit; every path to exit_data has established "
+    "destination != ('0.0.0.0', 0) and every path to transport.sendto the same for the address actually emitted (after "
+    "domain-name resolution re-entered sendto); every path to enable() has established the previous-hop IP comparison (or "
+    "an already enabled socket), every path to exit_socket.sendto an enabled socket; the exit socket's hop is a Peer built "
+    "in join_circuit from the CREATE cell's source address; the DataChecker classifiers are decision tables over their base "
+    "quantities (length, bytes, big-endian fields at constant offsets) evaluated on every region their comparisons can "
+    "distinguish (bytes that enter arithmetic: all 256 values), with every fixed-width read guarded by the length it needs."
 )
 
 ES = "ipv8/messaging/anonymization/exit_socket.py"
@@ -131,57 +134,1439 @@ def _param_root(fi: FuncInfo, e: ast.AST | None) -> str | None:
     return None
 
 
-class _Table(TableEvaluator):
-    """TableEvaluator that reads `a not in b` / `a != b` as the negation of the atom `a in b` / `a == b`."""
+# ------------------------------------------------------------------------------------------ path-sensitive walk
+# The gate / guard rules ask "does P hold on EVERY feasible path to this call?".  How the guard is spelt (nested ifs, flat
+# guard clauses, one compound test, a flag local, a ternary, a decision helper that returns a bool, a for-loop over a tuple
+# of checks) does not matter for that question, so it is decided by walking the paths of the function's CFG with a symbolic
+# state:   env    local name -> the expression (over parameters / attribute paths / constants) it currently holds,
+#          facts  outcome of every condition atom met so far, keyed by its canonical text (after substituting env).
+# A path whose conditions contradict each other is dropped (a flag tested twice, `if a and b: return` followed by `if a:`).
+# Calls to functions the reviewed tree does not have (sa/tables/local_names.json) and that the loader could not inline are
+# FOLLOWED: the helper's paths are walked with its parameters bound to the caller's arguments, its return value is what
+# the caller's condition / assignment sees.  Expressions are treated as stable between two evaluations unless something on
+# the path in between stores into a prefix of them, calls enable() (sets `.enabled`), or awaits.
+_SIM_PURE = _PURE_CALLS | {"isinstance", "str", "tuple", "int", "repr", "min", "max", "abs", "type", "id", "hash", "all", "any", "set",
+                          "frozenset", "list", "dict", "sorted", "getattr", "hasattr", "be", "range", "divmod", "ord", "int.from_bytes",
+                          "unpack", "struct.unpack", "Peer", "Hop"}
+_TABLE_ATTRS = ("self.exit_sockets", "self.circuits", "self.relay_from_to")
+_FOLLOW_DEPTH = 4
+_NEST = (ast.Lambda, ast.ListComp, ast.SetComp, ast.DictComp, ast.GeneratorExp, ast.FunctionDef, ast.AsyncFunctionDef, ast.ClassDef)
 
-    @staticmethod
-    def _twin(e: ast.AST) -> ast.AST | None:
-        if isinstance(e, ast.Compare) and len(e.ops) == 1 and isinstance(e.ops[0], (ast.NotIn, ast.NotEq)):
-            op = ast.In() if isinstance(e.ops[0], ast.NotIn) else ast.Eq()
-            return ast.Compare(left=e.left, ops=[op], comparators=e.comparators)
+
+def _lit(v) -> ast.AST | None:
+    if isinstance(v, tuple):
+        elts = [_lit(x) for x in v]
+        return None if any(e is None for e in elts) else ast.Tuple(elts=elts, ctx=ast.Load())
+    if v is None or isinstance(v, (bool, int, str, bytes, float)):
+        return ast.Constant(value=v)
+    return None
+
+
+def _fkey(f: Fact) -> tuple:
+    l = norm(f.left)
+    r = norm(f.right) if f.right is not None else None
+    if f.op in ("eq", "is") and r is not None and r < l:
+        l, r = r, l
+    return (f.op, l, r)
+
+
+def _uncond(e: ast.AST):
+    """sub-expressions of e that are evaluated whenever e is evaluated without raising (no short-circuited operands, no
+    ternary branches, no nested scopes)"""
+    stack = [e]
+    while stack:
+        n = stack.pop()
+        if isinstance(n, _NEST):
+            continue
+        yield n
+        if isinstance(n, ast.BoolOp):
+            stack.append(n.values[0])
+        elif isinstance(n, ast.IfExp):
+            stack.append(n.test)
+        else:
+            stack.extend(ast.iter_child_nodes(n))
+
+
+def _all_exprs(e: ast.AST):
+    stack = [e]
+    while stack:
+        n = stack.pop()
+        if isinstance(n, _NEST):
+            continue
+        yield n
+        stack.extend(ast.iter_child_nodes(n))
+
+
+def _all_exprs_with_comprehensions(e: ast.AST):
+    """like _all_exprs, but also yields (without entering) the comprehensions met"""
+    stack = [e]
+    while stack:
+        n = stack.pop()
+        if isinstance(n, (ast.GeneratorExp, ast.ListComp)):
+            yield n
+            continue
+        if isinstance(n, _NEST):
+            continue
+        yield n
+        stack.extend(ast.iter_child_nodes(n))
+
+
+def _own_exprs(u) -> list[ast.AST]:
+    """the expressions a CFG node evaluates itself (not those of the statements nested in it)"""
+    a = u.ast
+    if a is None or u.kind not in ("stmt", "cond"):
+        return []
+    if isinstance(a, ast.expr):
+        return [a]
+    if isinstance(a, (ast.With, ast.AsyncWith)):
+        return [i.context_expr for i in a.items]
+    if isinstance(a, (ast.Return, ast.Expr)):
+        return [a.value] if a.value is not None else []
+    if isinstance(a, ast.Assign):
+        return [a.value, *[t for t in a.targets if not isinstance(t, ast.Name)]]
+    if isinstance(a, ast.AnnAssign):
+        return ([a.value] if a.value is not None else []) + ([a.target] if not isinstance(a.target, ast.Name) else [])
+    if isinstance(a, ast.AugAssign):
+        return [a.value, a.target]
+    if isinstance(a, ast.Raise):
+        return [x for x in (a.exc, a.cause) if x is not None]
+    if isinstance(a, ast.Delete):
+        return list(a.targets)
+    if isinstance(a, ast.Assert):
+        return [a.msg] if a.msg is not None else []
+    return []
+
+
+class _St:
+    __slots__ = ("env", "facts", "fobj", "iters", "ret", "stored", "assumed", "trail", "epoch", "fepoch", "gens")
+
+    def __init__(self) -> None:
+        self.env: dict[str, ast.AST] = {}
+        self.facts: dict[tuple, bool] = {}
+        self.fobj: dict[tuple, Fact] = {}
+        self.iters: dict[tuple, int] = {}
+        self.ret: ast.AST | None = None
+        self.stored: tuple[str, ...] = ()        # canonical texts of the attribute / item targets written on this path
+        self.assumed: tuple[str, ...] = ()       # conditions this path had to guess (neither seeded nor implied)
+        self.trail: tuple = ()                   # the same as (canonical condition, outcome) pairs
+        self.epoch = 0                           # number of calls with unknown effects passed so far
+        self.fepoch: dict[tuple, int] = {}       # fact key -> epoch in which it was established
+        self.gens: dict[tuple, tuple] = {}       # for-loop over a walked generator helper -> where that generator is suspended
+
+    def copy(self) -> "_St":
+        s = _St()
+        s.env, s.facts, s.fobj, s.iters, s.ret = dict(self.env), dict(self.facts), dict(self.fobj), dict(self.iters), self.ret
+        s.stored, s.assumed, s.trail = self.stored, self.assumed, self.trail
+        s.epoch, s.fepoch, s.gens = self.epoch, dict(self.fepoch), dict(self.gens)
+        return s
+
+    def known(self, op: str, left: str, right: str | None = None) -> bool | None:
+        """established outcome of the atom `left op right` (canonical texts), None when the path says nothing about it"""
+        if op in ("eq", "is") and right is not None and right < left:
+            left, right = right, left
+        return self.facts.get((op, left, right))
+
+    def holds(self, pred) -> bool:
+        """pred(Fact) for some established fact (Fact.pos is the established outcome)"""
+        for k, f in self.fobj.items():
+            try:
+                if pred(f):
+                    return True
+            except Exception:  # noqa: BLE001
+                continue
+        return False
+
+    def describe(self) -> list[str]:
+        return sorted(str(f) for f in self.fobj.values())
+
+
+class _Frame:
+    _n = 0
+
+    def __init__(self, fi: FuncInfo, cfg, parent: "_Frame | None" = None, call: ast.Call | None = None) -> None:
+        _Frame._n += 1
+        self.key = _Frame._n
+        self.fi, self.cfg, self.parent, self.call = fi, cfg, parent, call
+        self.depth = 0 if parent is None else parent.depth + 1
+        self.is_gen = False
+
+    def chain(self):
+        f = self
+        while f is not None:
+            yield f
+            f = f.parent
+
+    @property
+    def root(self) -> "_Frame":
+        f = self
+        while f.parent is not None:
+            f = f.parent
+        return f
+
+
+_CMP_CONST = {ast.Eq: lambda a, b: a == b, ast.NotEq: lambda a, b: a != b, ast.In: lambda a, b: a in b, ast.NotIn: lambda a, b: a not in b,
+              ast.Is: lambda a, b: a is b or (a == b and isinstance(a, str)), ast.IsNot: lambda a, b: not (a is b or (a == b and isinstance(a, str)))}
+
+
+def _never_none(x: ast.AST) -> bool:
+    """the expression cannot evaluate to None"""
+    if isinstance(x, ast.Constant):
+        return x.value is not None
+    if isinstance(x, (ast.Tuple, ast.List, ast.Dict, ast.Set, ast.Compare, ast.BinOp, ast.JoinedStr)):
+        return True
+    if isinstance(x, ast.UnaryOp):
+        return True
+    if isinstance(x, ast.Call):
+        return (chain(x.func) or "") in ("len", "be", "int", "bool", "str", "bytes", "isinstance", "tuple", "list", "set", "dict", "Peer", "Hop")
+    if isinstance(x, ast.IfExp):
+        return _never_none(x.body) and _never_none(x.orelse)
+    return False
+
+
+def _subst_names(e: ast.AST, mapping: dict[str, ast.AST]) -> ast.AST:
+    class T(ast.NodeTransformer):
+        def visit_Name(self, n: ast.Name) -> ast.AST:
+            return clone(mapping[n.id]) if n.id in mapping else n
+    return T().visit(clone(e))
+
+
+def _literal_items(e: ast.AST) -> list[ast.AST] | None:
+    """the items of a literal sequence, or of a generator / list comprehension that maps one over a literal sequence"""
+    if isinstance(e, (ast.Tuple, ast.List, ast.Set)) and not any(isinstance(x, ast.Starred) for x in e.elts):
+        return list(e.elts)
+    if isinstance(e, (ast.GeneratorExp, ast.ListComp)) and len(e.generators) == 1:
+        g = e.generators[0]
+        src_items = _literal_items(g.iter)
+        if src_items is None or g.ifs or g.is_async:
+            return None
+        out = []
+        for it in src_items:
+            if isinstance(g.target, ast.Name):
+                m = {g.target.id: it}
+            elif isinstance(g.target, ast.Tuple) and isinstance(it, ast.Tuple) and len(it.elts) == len(g.target.elts) \
+                    and all(isinstance(t, ast.Name) for t in g.target.elts):
+                m = {t.id: v for t, v in zip(g.target.elts, it.elts)}
+            else:
+                return None
+            out.append(_subst_names(e.elt, m))
+        return out
+    return None
+
+
+def _be_field(buf: ast.AST, off: int, width: int) -> ast.AST:
+    """canonical spelling of the unsigned big-endian field of `width` bytes at offset `off` of buf"""
+    if width == 1:
+        return ast.Subscript(value=buf, slice=ast.Constant(value=off), ctx=ast.Load())
+    return ast.Call(func=ast.Name(id="be", ctx=ast.Load()), args=[buf, ast.Constant(value=off), ast.Constant(value=width)], keywords=[])
+
+
+def _unpacked_field(call: ast.Call, idx: int) -> ast.AST | None:
+    """unpack_from(fmt, buf[, off])[idx] / struct.unpack(fmt, buf[a:b])[idx] for a big-endian unsigned format -> _be_field"""
+    c = chain(call.func) or ""
+    if c not in ("unpack_from", "struct.unpack_from", "unpack", "struct.unpack") or call.keywords or len(call.args) < 2:
+        return None
+    fmt = const_value(call.args[0])
+    if not isinstance(fmt, str) or fmt[:1] not in ("!", ">"):
+        return None
+    buf, off = call.args[1], 0
+    if c.endswith("unpack_from"):
+        if len(call.args) == 3:
+            if not _is_int_const(call.args[2]) or call.args[2].value < 0:
+                return None
+            off = call.args[2].value
+        elif len(call.args) != 2:
+            return None
+    else:
+        if len(call.args) != 2 or not (isinstance(buf, ast.Subscript) and isinstance(buf.slice, ast.Slice) and buf.slice.step is None):
+            return None
+        lo = 0 if buf.slice.lower is None else buf.slice.lower.value if _is_int_const(buf.slice.lower) else None
+        if lo is None or lo < 0:
+            return None
+        buf, off = buf.value, lo
+    widths: list[int | None] = []
+    rep = ""
+    for ch in fmt[1:]:
+        if ch.isdigit():
+            rep += ch
+            continue
+        w = {"B": 1, "H": 2, "I": 4, "L": 4, "Q": 8, "x": None}.get(ch, 0)
+        if w == 0:
+            return None                 # signed / float / string fields: not an unsigned integer field
+        for _ in range(int(rep) if rep else 1):
+            widths.append(w if ch != "x" else -1)
+        rep = ""
+    pos = off
+    k = 0
+    for w in widths:
+        if w == -1:
+            pos += 1
+            continue
+        if k == idx:
+            return _be_field(buf, pos, w)
+        pos += w
+        k += 1
+    return None
+
+
+def _slice_bytes(o: ast.AST) -> list[int] | None:
+    """the byte indices a constant-bounded slice `d[a:b]` / `d[:b]` / `d[-k:]` covers"""
+    if not (isinstance(o, ast.Subscript) and isinstance(o.slice, ast.Slice) and o.slice.step is None):
+        return None
+    lo, hi = o.slice.lower, o.slice.upper
+    lo_v = 0 if lo is None else const_value(lo)
+    hi_v = None if hi is None else const_value(hi)
+    if not isinstance(lo_v, int) or isinstance(lo_v, bool) or (hi is not None and (not isinstance(hi_v, int) or isinstance(hi_v, bool))):
+        return None
+    if lo_v >= 0 and hi_v is not None and hi_v > lo_v and hi_v - lo_v <= 8:
+        return list(range(lo_v, hi_v))
+    if -8 <= lo_v < 0 and hi_v is None:
+        return list(range(lo_v, 0))
+    return None
+
+
+def _single_bytes(n: ast.Compare) -> ast.AST:
+    """`d[a:b] == b"xy"` says `d[a] == ord("x") and d[a+1] == ord("y")` about the bytes (wherever d is long enough for the slice
+    to be whole, which is all the decision table looks at: it treats the length as an independent quantity); likewise `in`
+    over constants of that width, `!=` / `not in` negated, and (x, y) == (1, 2) element by element."""
+    if len(n.ops) != 1 or not isinstance(n.ops[0], (ast.Eq, ast.NotEq, ast.In, ast.NotIn)):
+        return n
+    op, left, right = n.ops[0], n.left, n.comparators[0]
+    neg = isinstance(op, (ast.NotEq, ast.NotIn))
+
+    def wrap(e: ast.AST) -> ast.AST:
+        return ast.UnaryOp(op=ast.Not(), operand=e) if neg else e
+    if isinstance(op, (ast.Eq, ast.NotEq)) and isinstance(left, ast.Tuple) and isinstance(right, ast.Tuple) and len(left.elts) == len(right.elts) > 0 \
+            and not any(isinstance(e, ast.Starred) for e in [*left.elts, *right.elts]):
+        parts = [_single_bytes(ast.Compare(left=a, ops=[ast.Eq()], comparators=[b])) for a, b in zip(left.elts, right.elts)]
+        return wrap(parts[0] if len(parts) == 1 else ast.BoolOp(op=ast.And(), values=parts))
+    if isinstance(op, (ast.Eq, ast.NotEq)) and _slice_bytes(right) is not None and _slice_bytes(left) is None:
+        left, right = right, left
+    idx = _slice_bytes(left)
+    if idx is None:
+        return n
+
+    def equals(c: ast.AST) -> ast.AST | None:
+        if not (isinstance(c, ast.Constant) and isinstance(c.value, bytes) and len(c.value) == len(idx)):
+            return None
+        parts = [ast.Compare(left=ast.Subscript(value=clone(left.value), slice=ast.Constant(value=i), ctx=ast.Load()), ops=[ast.Eq()],
+                             comparators=[ast.Constant(value=b)]) for i, b in zip(idx, c.value)]
+        return parts[0] if len(parts) == 1 else ast.BoolOp(op=ast.And(), values=parts)
+    if isinstance(op, (ast.Eq, ast.NotEq)):
+        e = equals(right)
+        if e is None:
+            return n
+        if neg and isinstance(e, ast.Compare):
+            return ast.Compare(left=e.left, ops=[ast.NotEq()], comparators=e.comparators)
+        return wrap(e)
+    if not isinstance(right, (ast.Tuple, ast.List, ast.Set)) or not right.elts:
+        return n
+    alts = [equals(c) for c in right.elts]
+    if any(a is None for a in alts):
+        return n
+    if len(idx) == 1:
+        return ast.Compare(left=alts[0].left, ops=[op], comparators=[ast.Tuple(elts=[a.comparators[0] for a in alts], ctx=ast.Load())])
+    return wrap(alts[0] if len(alts) == 1 else ast.BoolOp(op=ast.Or(), values=alts))
+
+
+class _Canon2(_Canon):
+    """_Canon plus the rewrites that only make sense for the path walk's `maybe-None` reading of table lookups."""
+
+    def __init__(self, hop_address: bool) -> None:
+        super().__init__(dict_get=True)
+        self.hop_address = hop_address
+
+    def visit_Call(self, n: ast.Call) -> ast.AST:
+        r = super().visit_Call(n)
+        if not isinstance(r, ast.Call):
+            return r
+        c = chain(r.func) or ""
+        if isinstance(r.func, ast.Attribute) and r.func.attr == "issubset" and len(r.args) == 1 \
+                and not r.keywords and isinstance(r.func.value, ast.Set) and len(r.func.value.elts) == 1:
+            return self.visit_Compare(ast.Compare(left=r.func.value.elts[0], ops=[ast.In()], comparators=[r.args[0]]))
+        if c == "int.from_bytes" and r.args and isinstance(r.args[0], ast.Subscript) and isinstance(r.args[0].slice, ast.Slice):
+            order = r.args[1] if len(r.args) > 1 else next((k.value for k in r.keywords if k.arg == "byteorder"), ast.Constant(value="big"))
+            signed = next((k.value for k in r.keywords if k.arg == "signed"), ast.Constant(value=False))
+            s = r.args[0].slice
+            lo = 0 if s.lower is None else s.lower.value if _is_int_const(s.lower) else None
+            hi = s.upper.value if s.upper is not None and _is_int_const(s.upper) else None
+            if const_value(order) == "big" and const_value(signed) is False and s.step is None and lo is not None and lo >= 0 \
+                    and hi is not None and hi > lo:
+                return _be_field(r.args[0].value, lo, hi - lo)                # a fixed-width big-endian field
+        if isinstance(r.func, ast.Attribute) and r.func.attr in ("startswith", "endswith") and len(r.args) == 1 and not r.keywords \
+                and isinstance(r.args[0], ast.Constant) and isinstance(r.args[0].value, bytes) and r.args[0].value:
+            k = len(r.args[0].value)
+            if r.func.attr == "startswith":
+                sl = ast.Slice(lower=None, upper=ast.Constant(value=k), step=None)
+            else:
+                sl = ast.Slice(lower=ast.Constant(value=-k), upper=None, step=None)
+            return self.visit_Compare(ast.Compare(left=ast.Subscript(value=r.func.value, slice=sl, ctx=ast.Load()), ops=[ast.Eq()],
+                                                  comparators=[r.args[0]]))
+        if c == "divmod" and len(r.args) == 2 and not r.keywords:
+            return ast.Tuple(elts=[self.visit_BinOp(ast.BinOp(left=r.args[0], op=ast.FloorDiv(), right=r.args[1])),
+                                   self.visit_BinOp(ast.BinOp(left=clone(r.args[0]), op=ast.Mod(), right=clone(r.args[1])))], ctx=ast.Load())
+        return r
+
+    def visit_BinOp(self, n: ast.BinOp) -> ast.AST:
+        self.generic_visit(n)
+        if isinstance(n.op, (ast.FloorDiv, ast.Mod)) and _is_int_const(n.right) and n.right.value >= 2 \
+                and n.right.value & (n.right.value - 1) == 0:
+            if isinstance(n.op, ast.FloorDiv):      # x // 2**k == x >> k and x % 2**k == x & (2**k - 1) for every int x
+                return ast.BinOp(left=n.left, op=ast.RShift(), right=ast.Constant(value=n.right.value.bit_length() - 1))
+            return ast.BinOp(left=n.left, op=ast.BitAnd(), right=ast.Constant(value=n.right.value - 1))
+        return n
+
+    def visit_IfExp(self, n: ast.IfExp) -> ast.AST:
+        self.generic_visit(n)
+        # `d[k] if k in d else None` is d.get(k): it denotes d[k] wherever the result is known to be truthy / not None / is
+        # successfully used as a receiver (the rules ask for exactly that)
+        for val, other in ((n.body, n.orelse), (n.orelse, n.body)):
+            if isinstance(other, ast.Constant) and other.value is None and not isinstance(val, ast.Constant):
+                return val
+        return n
+
+    def visit_BoolOp(self, n: ast.BoolOp) -> ast.AST:
+        self.generic_visit(n)
+        if isinstance(n.op, ast.Or) and len(n.values) == 2 and isinstance(n.values[1], ast.Constant) and n.values[1].value is None:
+            return n.values[0]          # `x or None`
+        return n
+
+    def visit_Subscript(self, n: ast.Subscript) -> ast.AST:
+        self.generic_visit(n)
+        i = n.slice
+        if _is_int_const(i) and i.value >= 0 and isinstance(n.value, ast.Call):
+            f = _unpacked_field(n.value, i.value)
+            if f is not None:
+                return f
+        if _is_int_const(i) and i.value >= 0:
+            v = n.value
+            if isinstance(v, (ast.Tuple, ast.List)) and i.value < len(v.elts) and not any(isinstance(e, ast.Starred) for e in v.elts):
+                return v.elts[i.value]                                   # (a, b)[0] -> a
+            if isinstance(v, ast.Subscript) and isinstance(v.slice, ast.Slice) and v.slice.step is None:
+                lo, hi = v.slice.lower, v.slice.upper
+                lo_v = 0 if lo is None else lo.value if _is_int_const(lo) and lo.value >= 0 else None
+                hi_ok = hi is None or (_is_int_const(hi) and lo_v is not None and hi.value - lo_v > i.value)
+                if lo_v is not None and hi_ok:
+                    return ast.Subscript(value=v.value, slice=ast.Constant(value=lo_v + i.value), ctx=ast.Load())   # x[:2][0] -> x[0]
+        return n
+
+    def visit_Compare(self, n: ast.Compare) -> ast.AST:
+        self.generic_visit(n)
+        if len(n.ops) == 1 and isinstance(n.ops[0], (ast.In, ast.NotIn)) and isinstance(n.comparators[0], ast.Call) \
+                and chain(n.comparators[0].func) == "range" and 1 <= len(n.comparators[0].args) <= 2 and not n.comparators[0].keywords:
+            a = n.comparators[0].args
+            lo, hi = (ast.Constant(value=0), a[0]) if len(a) == 1 else (a[0], a[1])
+            inside = ast.Compare(left=lo, ops=[ast.LtE(), ast.Lt()], comparators=[n.left, hi])      # x in range(a, b): a <= x < b
+            return inside if isinstance(n.ops[0], ast.In) else ast.UnaryOp(op=ast.Not(), operand=inside)
+        n = _single_bytes(n)
+        if not isinstance(n, ast.Compare):
+            return n
+        if len(n.ops) == 1 and type(n.ops[0]) in _CMP_CONST:
+            # a tag chosen by a ternary and compared with a constant is the ternary's own test: ("a" if c else "b") == "a"  is  c
+            for tern, other, swap in ((n.left, n.comparators[0], False), (n.comparators[0], n.left, True)):
+                if isinstance(tern, ast.IfExp) and const_value(tern.body) is not NOCONST and const_value(tern.orelse) is not NOCONST:
+                    k = const_value(other)
+                    if k is NOCONST and isinstance(other, (ast.List, ast.Set)):
+                        vs = [const_value(e) for e in other.elts]
+                        k = tuple(vs) if all(v is not NOCONST for v in vs) else NOCONST
+                    if k is NOCONST:
+                        continue
+                    fn = _CMP_CONST[type(n.ops[0])]
+                    try:
+                        a, b = (fn(k, const_value(tern.body)), fn(k, const_value(tern.orelse))) if swap else \
+                               (fn(const_value(tern.body), k), fn(const_value(tern.orelse), k))
+                    except Exception:  # noqa: BLE001
+                        continue
+                    if a == b:
+                        return ast.Constant(value=bool(a))
+                    return tern.test if a else ast.UnaryOp(op=ast.Not(), operand=tern.test)
+        if len(n.ops) == 1 and isinstance(n.ops[0], (ast.Is, ast.IsNot)):
+            for a, b in ((n.left, n.comparators[0]), (n.comparators[0], n.left)):
+                if isinstance(b, ast.Constant) and b.value is None and _never_none(a):
+                    return ast.Constant(value=isinstance(n.ops[0], ast.IsNot))
+            if all(isinstance(o, ast.Constant) and (o.value is None or isinstance(o.value, bool)) for o in (n.left, n.comparators[0])):
+                return ast.Constant(value=(n.left.value is n.comparators[0].value) == isinstance(n.ops[0], ast.Is))
+        if len(n.ops) == 1 and isinstance(n.ops[0], ast.LtE) and isinstance(n.left, ast.Set) and len(n.left.elts) == 1 \
+                and not isinstance(n.left.elts[0], ast.Starred):
+            n = ast.Compare(left=n.left.elts[0], ops=[ast.In()], comparators=n.comparators)      # {x} <= s  is  x in s
+        if len(n.ops) == 1 and isinstance(n.ops[0], (ast.In, ast.NotIn)):
+            r = n.comparators[0]
+            while isinstance(r, ast.Call) and chain(r.func) in ("set", "frozenset", "list", "tuple") and len(r.args) == 1 and not r.keywords:
+                r = r.args[0]           # membership does not depend on the container type
+            n.comparators = [r]
+        return n
+
+    def visit_Attribute(self, n: ast.Attribute) -> ast.AST:
+        self.generic_visit(n)
+        if self.hop_address and n.attr == "address" and isinstance(n.value, ast.Attribute) and n.value.attr == "peer" \
+                and isinstance(n.value.value, ast.Attribute) and n.value.value.attr == "hop":
+            return ast.Attribute(value=n.value.value, attr="address", ctx=ast.Load())     # Hop.address is `self.peer.address`
+        return n
+
+
+class _Sym:
+    """Walks every feasible path of `fi` (and of the new helpers it calls); on_site(sym, frame, call, tag, state) ->
+    {question: bool} is asked at every evaluation of a call for which site_of(call) gives a tag."""
+
+    LIMIT = 200000
+
+    def __init__(self, ctx: Ctx, fi: FuncInfo, site_of, on_site) -> None:
+        self.ctx, self.repo, self.fi = ctx, ctx.repo, fi
+        self.site_of, self.on_site = site_of, on_site
+        self.results: dict[int, list[dict]] = {}
+        self.site_nodes: dict[int, tuple[_Frame, ast.Call, str]] = {}
+        self.site_facts: dict[int, list[str]] = {}
+        self.followed: set[int] = set()           # id(call) of helper calls that were walked
+        self.helpers: set[FuncInfo] = set()
+        self._orig: dict[int, int] = {}           # id of a rebuilt expression node -> id of the syntax node it stands for
+        self._keep: list = []
+        self._nph = 0
+        self.steps = 0
+        hop = self.repo.try_cls("Hop", "ipv8/messaging/anonymization/tunnel.py")
+        prop = hop.methods.get("address") if hop is not None else None
+        body = [s for s in prop.node.body if not (isinstance(s, ast.Expr) and isinstance(s.value, ast.Constant))] if prop else []
+        self.hop_address = bool(prop and "property" in prop.decorator_names() and len(body) == 1 and isinstance(body[0], ast.Return)
+                                and body[0].value is not None and norm(body[0].value) == "self.peer.address")
+        from ..localnames import load_table
+        table = load_table()
+        self.new_funcs: dict[str, list[FuncInfo]] = {}
+        self.known_names: set[str] = set()
+        for g in self.repo.all_functions():
+            rel = g.module.relpath
+            if rel.startswith("ipv8/messaging/anonymization/") and rel in table and g.qualname not in table[rel]:
+                self.new_funcs.setdefault(g.name, []).append(g)
+            else:
+                self.known_names.add(g.name)
+
+    # ---------------------------------------------------------------- running
+    def run(self) -> "_Sym":
+        fr = _Frame(self.fi, self.ctx.cfg(self.fi))
+        st = _St()
+        for p in self.fi.params():
+            st.env[p] = ast.Name(id=p, ctx=ast.Load())
+        self.root = fr
+        self.steps = 0
+        self._paths(fr, st)
+        return self
+
+    def decide(self, seed: dict[tuple, bool]) -> list[tuple[bool | None, ast.AST, _St]]:
+        """truth values the walked function can return when the atoms in `seed` (fact key -> outcome) are as given"""
+        fr = _Frame(self.fi, self.ctx.cfg(self.fi))
+        st = _St()
+        for p in self.fi.params():
+            st.env[p] = ast.Name(id=p, ctx=ast.Load())
+        st.facts = dict(seed)
+        self.root = fr
+        self.steps = 0
+        return [(self.tv(ret, st2), ret, st2) for kind, ret, st2 in self._paths(fr, st) if kind == "ret"]
+
+    def verdict(self, call: ast.Call, what: str) -> bool:
+        """did `what` hold at every evaluation of the call on a feasible path (vacuously true when there is none)"""
+        return all(r.get(what, False) for r in self.results.get(id(call), []))
+
+    def sites(self, tag: str) -> list[tuple[_Frame, ast.Call]]:
+        return [(fr, c) for fr, c, t in self.site_nodes.values() if t == tag]
+
+    def _paths(self, fr: _Frame, st: _St) -> list:
+        out: list = []
+        self._dfs(fr, fr.cfg.entry, st, frozenset(), out)
+        return out
+
+    def _dfs(self, fr: _Frame, u, st: _St, used: frozenset, out: list) -> None:
+        self.steps += 1
+        if self.steps > self.LIMIT:
+            raise AnalysisError(f"undecided: more than {self.LIMIT} path steps in {self.fi.qualname}")
+        if u is fr.cfg.exit:
+            out.append(("ret", st.ret if st.ret is not None else ast.Constant(value=None), st))
+            return
+        if u is fr.cfg.raise_exit:
+            out.append(("exc", None, st))
+            return
+        m = parent(u.ast) if u.ast is not None and u.kind == "stmt" else None
+        if isinstance(m, ast.Match) and m.subject is u.ast:
+            self._dfs_match(fr, u, m, st, used, out)
+            return
+        yields = fr.is_gen and u.kind == "stmt" and isinstance(u.ast, ast.Expr) and isinstance(u.ast.value, ast.Yield)
+        for lab, st2 in self._eval_node(fr, u, st):
+            sig = tuple(sorted((k, v) for k, v in st2.iters.items() if k[0] == fr.key and v))
+            for i, (v, l) in enumerate(u.succ):
+                if l != lab:
+                    continue
+                key = (u.id, i, sig)
+                if key in used:
+                    if not (u.kind == "loop" and l is None) or (*key, 1) in used:
+                        continue
+                    key = (*key, 1)         # the head of a while loop is passed again after one iteration
+                if yields and l is None:
+                    y = u.ast.value.value
+                    out.append(("yield", self.C(fr, y, st) if y is not None else ast.Constant(value=None), st2, (v, used | {key})))
+                    continue                # the generator is suspended here; whoever iterates resumes it
+                self._dfs(fr, v, st2, used | {key}, out)
+
+    def _pattern_cond(self, fr: _Frame, subj: ast.AST, pat: ast.AST, st: _St):
+        """the condition under which a `case` pattern matches: an expression, True (always), or None (not modelled)"""
+        if isinstance(pat, ast.MatchSingleton):
+            return ast.Compare(left=subj, ops=[ast.Is()], comparators=[ast.Constant(value=pat.value)])
+        if isinstance(pat, ast.MatchValue):
+            return ast.Compare(left=subj, ops=[ast.Eq()], comparators=[self.C(fr, pat.value, st)])
+        if isinstance(pat, ast.MatchAs):
+            return True if pat.pattern is None else self._pattern_cond(fr, subj, pat.pattern, st)
+        if isinstance(pat, ast.MatchOr):
+            cs = [self._pattern_cond(fr, subj, q, st) for q in pat.patterns]
+            if any(c is True for c in cs):
+                return True
+            return None if any(c is None for c in cs) else ast.BoolOp(op=ast.Or(), values=cs)
         return None
 
-    def discover(self) -> list[str]:
-        super().discover()
-        for n in ast.walk(self.fi.node):
-            t = self._twin(n)
-            if t is not None:
-                k = self.atom_of(t)
-                if k is not None:
-                    self.atoms_seen.add(k)
-        return sorted(self.atoms_seen)
+    def _dfs_match(self, fr: _Frame, u, m: ast.Match, st: _St, used: frozenset, out: list) -> None:
+        """`match subject:` - the cases are tried in order; literal / None / wildcard patterns are conditions on the subject"""
+        succ = [(i, v) for i, (v, l) in enumerate(u.succ) if l is None]
+        for lab, st2 in self._eval_node(fr, u, st):
+            if lab is not None:
+                for i, (v, l) in enumerate(u.succ):
+                    if l == lab and (u.id, i, ()) not in used:
+                        self._dfs(fr, v, st2, used | {(u.id, i, ())}, out)
+                continue
+            subj = st2.env.pop("%subject", None) or self.C(fr, m.subject, st)
+            rest: _St | None = st2
+            for (i, v), case in zip(succ, m.cases):
+                if rest is None:
+                    break
+                cond = self._pattern_cond(fr, subj, case.pattern, rest)
+                taken = rest.copy()
+                ok = True if cond is True or cond is None else self.assume(_Canon2(self.hop_address).visit(clone(cond)), True, taken)
+                for q in ast.walk(case.pattern):
+                    name = getattr(q, "name", None) or (getattr(q, "rest", None) if isinstance(q, ast.MatchMapping) else None)
+                    if isinstance(name, str):
+                        taken.env[name] = clone(subj) if isinstance(q, ast.MatchAs) and q is case.pattern and self._pure(subj) else self._opaque(fr, name, u)
+                if ok and case.guard is not None:
+                    ok = self.assume(self.C(fr, case.guard, taken), True, taken)
+                key = (u.id, i, ())
+                if ok and key not in used:
+                    self._dfs(fr, v, taken, used | {key}, out)
+                if case.guard is None:
+                    if cond is True:
+                        rest = None
+                    elif cond is not None:
+                        rest = rest.copy()
+                        if not self.assume(_Canon2(self.hop_address).visit(clone(cond)), False, rest):
+                            rest = None
+            if rest is not None and len(succ) > len(m.cases):
+                i, v = succ[len(m.cases)]
+                if (u.id, i, ()) not in used:
+                    self._dfs(fr, v, rest, used | {(u.id, i, ())}, out)
 
-    def eval(self, e, env):
-        t = self._twin(strip_cast(e))
-        if t is not None and self.atom_of(t) is not None:
-            return not self.truth(super().eval(t, env))
-        return super().eval(e, env)
+    # ---------------------------------------------------------------- expressions
+    def C(self, fr: _Frame, e: ast.AST, st: _St, depth: int = 0) -> ast.AST:
+        """canonical form of e in the terms of the root function (locals replaced by what they hold on this path)"""
+        def sub(n: ast.AST) -> ast.AST:
+            n = strip_cast(n)
+            if isinstance(n, ast.Name):
+                v = st.env.get(n.id)
+                if v is not None:
+                    return clone(v)
+                c = self._module_const(fr, n)
+                return c if c is not None else ast.Name(id=n.id, ctx=ast.Load())
+            if isinstance(n, ast.Await):
+                return sub(n.value)         # the value of the awaited call (what awaiting does to the facts is an effect of the node)
+            if isinstance(n, ast.NamedExpr):
+                return sub(n.value)         # the value of `(x := e)` is e; binding x is an effect of the node
+            if isinstance(n, ast.Call) and isinstance(n.func, ast.Name) and isinstance(st.env.get(n.func.id), ast.Lambda) and not n.keywords \
+                    and not any(isinstance(x, ast.Starred) for x in n.args):
+                lam = st.env[n.func.id]
+                ps = lam.args
+                if not (ps.vararg or ps.kwarg or ps.kwonlyargs or ps.defaults) and len(ps.posonlyargs + ps.args) == len(n.args):
+                    # a local lambda applied to arguments is its body with the parameters replaced (its free names were resolved when
+                    # it was bound)
+                    return _subst_names(lam.body, {q.arg: sub(x) for q, x in zip(ps.posonlyargs + ps.args, n.args)})
+            if isinstance(n, (ast.GeneratorExp, ast.ListComp)) and len(n.generators) == 1:
+                # a comprehension over a literal sequence (possibly held in a local) is the sequence of its items
+                g = n.generators[0]
+                probe = type(n)(elt=n.elt, generators=[ast.comprehension(target=g.target, iter=sub(g.iter), ifs=g.ifs, is_async=g.is_async)])
+                items = _literal_items(probe)
+                if items is not None:
+                    return sub(ast.Tuple(elts=items, ctx=ast.Load()))
+            if isinstance(n, _NEST):
+                return clone(n)
+            new = type(n)()
+            for f in n._fields:
+                if not hasattr(n, f):
+                    continue
+                v = getattr(n, f)
+                if isinstance(v, ast.AST):
+                    v = sub(v)
+                elif isinstance(v, list):
+                    v = [sub(x) if isinstance(x, ast.AST) else x for x in v]
+                setattr(new, f, v)
+            if isinstance(n, ast.Call) and depth < 3:
+                r = self._expr_helper(fr, n, st, depth)
+                if r is not None:
+                    return r
+            if isinstance(n, ast.Call) and isinstance(n.func, (ast.Name, ast.Attribute)) and (chain(n.func) or "").split(".")[-1].startswith("could_be_"):
+                tg = {t.qualname for t in self.repo.resolve_call(fr.fi, n)}
+                if len(tg) == 1 and next(iter(tg)).startswith("DataChecker.could_be_"):
+                    new.func = ast.Attribute(value=ast.Name(id="DataChecker", ctx=ast.Load()), attr=next(iter(tg)).split(".")[1], ctx=ast.Load())
+            return new
+        return _Canon2(self.hop_address).visit(sub(e))
+
+    def _module_const(self, fr: _Frame, n: ast.Name) -> ast.AST | None:
+        if n.id in ("True", "False", "None", "self", "cls") or not n.id.isupper():
+            return None
+        v = self.repo.resolve_const(fr.fi.module, n, fr.fi.cls)
+        return None if v is NOCONST or not isinstance(v, tuple) else _lit(v)
+
+    def _pure(self, x: ast.AST) -> bool:
+        for n in ast.walk(x):
+            if isinstance(n, _IMPURE_NODES):
+                return False
+            if isinstance(n, ast.Call):
+                c = chain(n.func) or ""
+                if not (c in _SIM_PURE or c.startswith("DataChecker.could_be_") or c.endswith(".get")):
+                    return False
+        return True
+
+    def _expr_helper(self, fr: _Frame, call: ast.Call, st: _St, depth: int) -> ast.AST | None:
+        """a new helper whose body is one `return <pure expression>` denotes that expression"""
+        hs = self._callees(fr, call, st)
+        if len(hs) != 1:
+            return None
+        h = hs[0]
+        body = [s for s in h.node.body if not (isinstance(s, ast.Expr) and isinstance(s.value, ast.Constant))]
+        if len(body) != 1 or not isinstance(body[0], ast.Return) or body[0].value is None or h.is_async:
+            return None
+        env = self._bind(fr, h, call, st)
+        if env is None:
+            return None
+        st2 = _St()
+        st2.env = env
+        x = self.C(_Frame(h, None, fr, call), body[0].value, st2, depth + 1)
+        if not self._pure(x):
+            return None
+        self.followed.add(self._oid(call))
+        self.helpers.add(h)
+        return x
+
+    # ---------------------------------------------------------------- truth values and facts
+    @staticmethod
+    def _volatile(k: tuple) -> bool:
+        """the atom reads object state that a call with unknown effects may change (the policy inputs and `.enabled`, which
+        only enable() sets and which the walk tracks, are not)"""
+        for t in (k[1], k[2]):
+            if t is None:
+                continue
+            for stable in ("self.is_allowed(", "self.overlay.get_prefix()", FLAGS):
+                t = t.replace(stable, "")
+            if "self." in t and not t.endswith(".enabled"):
+                return True
+        return False
+
+    def _known(self, st: _St, k: tuple) -> bool | None:
+        """outcome of atom k as far as it may be used to decide a later test of the same atom: a fact about mutable object state
+        does not survive a call with unknown effects (it still counts as established on the path for the rules' questions)"""
+        if k not in st.facts:
+            return None
+        if st.fepoch.get(k, st.epoch) != st.epoch and self._volatile(k):
+            return None
+        return st.facts[k]
+
+    def tv(self, x: ast.AST, st: _St) -> bool | None:
+        x = strip_cast(x)
+        if isinstance(x, ast.Constant):
+            return bool(x.value)
+        if isinstance(x, (ast.Tuple, ast.List)) and not any(isinstance(e, ast.Starred) for e in x.elts):
+            return bool(x.elts)
+        if isinstance(x, ast.UnaryOp) and isinstance(x.op, ast.Not):
+            t = self.tv(x.operand, st)
+            return None if t is None else not t
+        if isinstance(x, ast.Call) and chain(x.func) == "bool" and len(x.args) == 1 and not x.keywords:
+            return self.tv(x.args[0], st)
+        if isinstance(x, ast.Call) and chain(x.func) in ("any", "all") and len(x.args) == 1 and not x.keywords:
+            seq = _literal_items(x.args[0])
+            if seq is not None:       # any((a, b, c)) is `a or b or c` as far as its truth value goes
+                op = ast.Or() if chain(x.func) == "any" else ast.And()
+                return self.tv(ast.BoolOp(op=op, values=seq), st) if seq else chain(x.func) == "all"
+        if isinstance(x, ast.BoolOp):
+            ts = [self.tv(v, st) for v in x.values]
+            if isinstance(x.op, ast.And):
+                if any(t is False for t in ts):
+                    return False
+                if all(t is True for t in ts):
+                    return True
+            else:
+                if any(t is True for t in ts):
+                    return True
+                if all(t is False for t in ts):
+                    return False
+            return self._known(st, ("truthy", norm(x), None))
+        if isinstance(x, ast.IfExp):
+            t = self.tv(x.test, st)
+            if t is not None:
+                return self.tv(x.body if t else x.orelse, st)
+            a, b = self.tv(x.body, st), self.tv(x.orelse, st)
+            return a if a == b else self._known(st, ("truthy", norm(x), None))
+        if isinstance(x, ast.Compare) and len(x.ops) > 1:
+            ts = []
+            left = x.left
+            for op, right in zip(x.ops, x.comparators):
+                ts.append(self.tv(ast.Compare(left=left, ops=[op], comparators=[right]), st))
+                left = right
+            if any(t is False for t in ts):
+                return False
+            if all(t is True for t in ts):
+                return True
+            return self._known(st, ("truthy", norm(x), None))
+        f = fact_of(x, True)
+        k = _fkey(f)
+        v = self._known(st, k)
+        if v is not None:
+            return v == f.pos
+        if isinstance(x, ast.Compare):
+            a, b = const_value(x.left), const_value(x.comparators[0])
+            fn = _CMP.get(type(x.ops[0]))
+            if isinstance(x.ops[0], (ast.Is, ast.IsNot)) and all(v is None or isinstance(v, bool) for v in (a, b)):
+                return (a is b) == isinstance(x.ops[0], ast.Is)
+            if isinstance(x.ops[0], (ast.Is, ast.IsNot)) and (a is None or b is None):
+                other = x.comparators[0] if a is None else x.left
+                if _never_none(other):
+                    return isinstance(x.ops[0], ast.IsNot)
+            if a is not NOCONST and b is not NOCONST and fn is not None:
+                try:
+                    return bool(fn(a, b))
+                except Exception:  # noqa: BLE001
+                    return None
+        return None
+
+    def _set(self, st: _St, g: Fact) -> bool:
+        if g.op == "truthy":
+            l = strip_cast(g.left)
+            while isinstance(l, ast.Call) and chain(l.func) == "bool" and len(l.args) == 1 and not l.keywords:
+                l = strip_cast(l.args[0])
+            if l is not g.left:
+                g = Fact("truthy", l, None, g.pos, l)
+        k = _fkey(g)
+        if self._known(st, k) is not None:
+            return st.facts[k] == g.pos
+        st.facts[k] = g.pos
+        st.fobj[k] = g
+        st.fepoch[k] = st.epoch
+        ok = True
+        if g.op in ("is", "eq"):
+            for a, b in ((g.left, g.right), (g.right, g.left)):
+                if isinstance(b, ast.Constant) and b.value is None and g.op == "is" and g.pos:
+                    ok = ok and self._set(st, Fact("truthy", a, None, False, a))
+                if isinstance(b, ast.Constant) and isinstance(b.value, bool):
+                    ok = ok and self._set(st, Fact("truthy", a, None, g.pos == b.value, a))
+        elif g.op == "truthy" and g.pos and not isinstance(g.left, ast.Constant):
+            none = ast.Constant(value=None)
+            ok = ok and self._set(st, Fact("is", g.left, none, False, ast.Compare(left=g.left, ops=[ast.Is()], comparators=[none])))
+        elif g.op == "in" and isinstance(g.right, (ast.Tuple, ast.List, ast.Set)) \
+                and not any(isinstance(e, ast.Starred) for e in g.right.elts) and (not g.pos or len(g.right.elts) == 1):
+            for e in g.right.elts:
+                ok = ok and self._set(st, Fact("eq", g.left, e, g.pos, ast.Compare(left=g.left, ops=[ast.Eq()], comparators=[e])))
+        return ok
+
+    def assume(self, x: ast.AST, lab: bool, st: _St) -> bool:
+        """record that canonical condition x evaluated to lab; False when that contradicts the path so far"""
+        t = self.tv(x, st)
+        if t is not None:
+            return t == lab
+        atoms = _atoms_with_polarity(x, lab)
+        st.assumed = (*st.assumed, norm(x))
+        st.trail = (*st.trail, (x, lab))
+        for g in atoms:
+            if not self._set(st, g):
+                return False
+        if not (len(atoms) == 1 and atoms[0].atom is x):
+            st.facts[("truthy", norm(x), None)] = lab
+            st.fepoch[("truthy", norm(x), None)] = st.epoch
+        return True
+
+    def _kill(self, st: _St, text: str, *, store: bool = True) -> None:
+        """something stored into `text`: facts and locals that mention it no longer describe the current state"""
+        if store:
+            st.stored = (*st.stored, text)
+        for k in [k for k in st.facts if text in k[1] or (k[2] is not None and text in k[2])]:
+            st.facts.pop(k)
+            st.fobj.pop(k, None)
+        for name, v in list(st.env.items()):
+            if text in norm(v) and not (isinstance(v, ast.Name) and v.id == name):
+                st.env[name] = ast.Name(id=f"{name}#stale", ctx=ast.Load())
+
+    # ---------------------------------------------------------------- nodes
+    def _opaque(self, fr: _Frame, name: str, u, st: _St | None = None) -> ast.AST:
+        single = len(local_defs(fr.fi, name)) + (1 if name in fr.fi.params() else 0) == 1
+        tag = name if single else f"{name}#{u.id}"
+        turn = sum(v for k, v in st.iters.items() if k[0] == fr.key) if st is not None else 0
+        if turn:
+            tag += f"!{turn}"               # a new unknown value in every turn of an unrolled loop
+        return ast.Name(id=tag if fr.depth == 0 else f"{tag}@{fr.fi.name}", ctx=ast.Load())
+
+    def _bind_target(self, fr: _Frame, t: ast.AST, val: ast.AST | None, st: _St, u) -> None:
+        """val: canonical value or None (unknown)"""
+        if isinstance(t, ast.Name):
+            if isinstance(val, ast.Lambda) and self._pure(val.body):
+                free = {k: v for k, v in st.env.items() if k not in {a.arg for a in val.args.posonlyargs + val.args.args}}
+                st.env[t.id] = ast.Lambda(args=val.args, body=_subst_names(val.body, free))
+                return
+            st.env[t.id] = val if val is not None and self._pure(val) else self._opaque(fr, t.id, u, st)
+        elif isinstance(t, (ast.Tuple, ast.List)):
+            star = any(isinstance(e, ast.Starred) for e in t.elts)
+            for i, e in enumerate(t.elts):
+                if isinstance(e, ast.Starred):
+                    self._bind_target(fr, e.value, None, st, u)
+                    continue
+                sub = None
+                if val is not None and not star:
+                    sub = _Canon2(self.hop_address).visit(ast.Subscript(value=clone(val), slice=ast.Constant(value=i), ctx=ast.Load()))
+                self._bind_target(fr, e, sub, st, u)
+        else:
+            self._kill(st, norm(self.C(fr, t, st)))
+
+    def _effects(self, fr: _Frame, u, st: _St, commit: bool) -> None:
+        """what evaluating the node's own expressions does to the state (commit=False: the node raised part-way)"""
+        self._walrus = []
+        self._effects1(fr, u, st, commit)
+        for name, val in self._walrus:           # bound after everything was evaluated in the state before the node
+            st.env[name] = val if self._pure(val) else self._opaque(fr, name, u)
+        if not commit:
+            for e in _own_exprs(u):
+                for n in _all_exprs(e):
+                    if isinstance(n, ast.NamedExpr):
+                        st.env[n.target.id] = self._opaque(fr, n.target.id, u)
+
+    def _effects1(self, fr: _Frame, u, st: _St, commit: bool) -> None:
+        for e in _own_exprs(u):
+            for n in _all_exprs(e):
+                if isinstance(n, ast.Call) and self._unknown_effects(n) and id(n) not in self.followed:
+                    st.epoch += 1           # (a walked helper's own calls were counted while it was walked)
+            for n in (_uncond(e) if commit else _all_exprs(e)):
+                if isinstance(n, ast.Await):
+                    for k in list(st.facts):
+                        if "self." in k[1] or (k[2] and "self." in k[2]):
+                            st.facts.pop(k)
+                            st.fobj.pop(k, None)
+                elif isinstance(n, ast.Call) and isinstance(n.func, ast.Attribute) and n.func.attr == "enable" and not n.args:
+                    r = self.C(fr, n.func.value, st)
+                    en = ast.Attribute(value=r, attr="enabled", ctx=ast.Load())
+                    self._kill(st, norm(en), store=False)
+                    if commit:
+                        self._set(st, Fact("truthy", en, None, True, en))
+                elif commit and isinstance(n, ast.NamedExpr):
+                    self._walrus.append((n.target.id, self.C(fr, n.value, st)))
+                elif commit and isinstance(n, ast.Subscript) and isinstance(n.ctx, ast.Load) and not isinstance(n.slice, ast.Slice):
+                    base = self.C(fr, n.value, st)
+                    if norm(base) in _TABLE_ATTRS:
+                        k = self.C(fr, n.slice, st)
+                        self._set(st, Fact("in", k, base, True, ast.Compare(left=k, ops=[ast.In()], comparators=[base])))
+            if not commit:
+                continue
+            for n in _all_exprs(e):         # conditionally evaluated enable(): unknown afterwards
+                if isinstance(n, ast.Call) and isinstance(n.func, ast.Attribute) and n.func.attr == "enable" and not n.args \
+                        and n not in set(_uncond(e)):
+                    self._kill(st, norm(ast.Attribute(value=self.C(fr, n.func.value, st), attr="enabled", ctx=ast.Load())), store=False)
+
+    @staticmethod
+    def _unknown_effects(c: ast.Call) -> bool:
+        ch = chain(c.func) or ""
+        if not call_may_raise(c) or ch in _SIM_PURE or ch.startswith("DataChecker.could_be_") or ch.endswith((".get", ".enable")):
+            return False
+        return ch not in ("UDPv4Address", "UDPv6Address", "DomainAddress")
+
+    def _finish(self, fr: _Frame, u, st: _St, value: ast.AST | None, given: bool) -> list:
+        """the node's own evaluation completed normally (a followed helper call inside it returned `value`)"""
+        a = u.ast
+        if u.kind == "cond":
+            x = value if given else self.C(fr, a, st)
+            if given and value is None:
+                x = self._opaque(fr, f"ret{u.id}", u)
+            out = []
+            for lab in (True, False):
+                st2 = st.copy()
+                self._effects(fr, u, st2, True)
+                if self.assume(x, lab, st2):
+                    out.append((lab, st2))
+            return out
+        st2 = st.copy()
+        self._effects(fr, u, st2, True)
+        if isinstance(a, (ast.Assign, ast.AnnAssign)) and a.value is not None:
+            val = value if given else self.C(fr, a.value, st)
+            for t in (a.targets if isinstance(a, ast.Assign) else [a.target]):
+                self._bind_target(fr, t, val, st2, u)
+        elif isinstance(a, ast.AugAssign):
+            if isinstance(a.target, ast.Name):
+                st2.env[a.target.id] = self._opaque(fr, a.target.id, u)
+            else:
+                self._kill(st2, norm(self.C(fr, a.target, st)))
+        elif isinstance(a, ast.Delete):
+            for t in a.targets:
+                if not isinstance(t, ast.Name):
+                    self._kill(st2, norm(self.C(fr, t, st)))
+        elif isinstance(a, ast.Return):
+            v = value if given else (self.C(fr, a.value, st) if a.value is not None else ast.Constant(value=None))
+            st2.ret = v if v is not None and self._pure(v) else self._opaque(fr, f"ret{u.id}", u)
+        elif isinstance(a, (ast.With, ast.AsyncWith)):
+            for i in a.items:
+                if i.optional_vars is not None:
+                    self._bind_target(fr, i.optional_vars, None, st2, u)
+        elif isinstance(a, ast.expr):
+            if given and value is not None:
+                st2.env["%subject"] = value         # the value of a `match` subject that was computed by a walked helper
+            else:
+                st2.env.pop("%subject", None)
+            p = parent(a)
+            if isinstance(p, (ast.For, ast.AsyncFor)) and p.iter is a:
+                for ln in fr.cfg.by_ast.get(id(p), []):
+                    st2.iters.pop((fr.key, ln.id), None)
+                    st2.gens.pop((fr.key, ln.id), None)
+        return [(None, st2)]
+
+    def _eval_node(self, fr: _Frame, u, st: _St) -> list:
+        k = u.kind
+        if k == "dispatch":
+            return [("exc", st)]
+        if k == "handler":
+            st2 = st.copy()
+            if u.ast is not None and u.ast.name:
+                st2.env[u.ast.name] = self._opaque(fr, u.ast.name, u)
+            return [(None, st2)]
+        if k == "loop":
+            return self._eval_loop(fr, u, st)
+        if k not in ("stmt", "cond"):
+            return [(None, st)]
+        exprs = _own_exprs(u)
+        calls_here = [n for e in exprs for n in _all_exprs(e) if isinstance(n, ast.Call)]
+        for c in [n for e in exprs for n in _all_exprs(e) if isinstance(n, (ast.Call, ast.Subscript))]:
+            tag = self.site_of(c)
+            if tag:
+                self._at_site(fr, c, tag, st)
+        for g in [n for e in exprs for n in _all_exprs_with_comprehensions(e) if isinstance(n, (ast.GeneratorExp, ast.ListComp))]:
+            self._sites_in_comprehension(fr, g, st, u)
+        has_exc = any(l == "exc" for _, l in u.succ)
+        a = u.ast
+        top = a if u.kind == "cond" or isinstance(a, ast.expr) else \
+            getattr(a, "value", None) if isinstance(a, (ast.Expr, ast.Assign, ast.AnnAssign, ast.Return)) else None
+        fcalls = [c for c in calls_here if self._walkable(fr, c, st)]
+        res: list = []
+        if fcalls and top is not None and all(any(n is c for n in _all_exprs(top)) for c in fcalls):
+            # the helpers called in the node's expression are walked in evaluation order (forking on the short-circuit
+            # conditions in front of them); what they return stands in their place
+            for kind, e2, st2 in self._hoist_calls(fr, top, st):
+                if kind == "exc":
+                    if has_exc:
+                        res.append(("exc", st2))
+                else:
+                    res.extend(self._finish(fr, u, st2, self.C(fr, e2, st2), True))
+            if has_exc:
+                st2 = st.copy()
+                self._effects(fr, u, st2, False)
+                res.append(("exc", st2))
+            return res
+        for c in fcalls:
+            for h in self._callees(fr, c, st):
+                if self._has_effects(h):
+                    raise AnalysisError(f"undecided: {fr.fi.qualname} calls new helper {h.qualname} (which has effects the rule tracks) "
+                                        f"in a position the walk does not model: `{norm(c)[:80]}`")
+            self._call(fr, c, st.copy())
+        res = self._finish(fr, u, st, None, False)
+        if has_exc:
+            st2 = st.copy()
+            self._effects(fr, u, st2, False)
+            res.append(("exc", st2))
+        return res
+
+    def _walkable(self, fr: _Frame, c: ast.Call, st: _St) -> bool:
+        """a call of a new helper that has to be walked (one-expression helpers are substituted by C()), or any() / all() / next()
+        over a new generator helper"""
+        if chain(c.func) in ("any", "all", "next") and c.args and isinstance(strip_cast(c.args[0]), ast.Call) \
+                and self._callees(fr, strip_cast(c.args[0]), st, gen=True):
+            return True
+        return bool(self._callees(fr, c, st)) and self._expr_helper(fr, c, st, 0) is None
+
+    def _oid(self, n: ast.AST) -> int:
+        return self._orig.get(id(n), id(n))
+
+    def _replace(self, e: ast.AST, old: ast.AST, new: ast.AST) -> ast.AST:
+        """copy of e with the node `old` replaced; sub-trees that do not contain it are shared (their nodes keep their identity)"""
+        if e is old:
+            return new
+        if not any(n is old for n in ast.walk(e)):
+            return e
+        cp = type(e)()
+        for f in e._fields:
+            if not hasattr(e, f):
+                continue
+            v = getattr(e, f)
+            if isinstance(v, ast.AST):
+                v = self._replace(v, old, new)
+            elif isinstance(v, list):
+                v = [self._replace(x, old, new) if isinstance(x, ast.AST) else x for x in v]
+            setattr(cp, f, v)
+        self._orig[id(cp)] = self._oid(e)
+        self._keep.append(cp)
+        return cp
+
+    def _hoist_calls(self, fr: _Frame, e: ast.AST, st: _St, depth: int = 0) -> list:
+        """[("ok", e', state) | ("exc", None, state)]: e with every walked helper call replaced by a placeholder local that holds
+        what the helper returned on that path"""
+        pending = [c for c in _all_exprs(e) if isinstance(c, ast.Call) and self._walkable(fr, c, st)]
+        if not pending or depth > 12:
+            return [("ok", e, st)]
+        now = [c for c in _uncond(e) if any(c is p for p in pending)]
+        now = [c for c in now if not any(p is not c and any(n is p for n in ast.walk(c)) for p in pending)]       # innermost first
+        out: list = []
+        if now:
+            c = now[-1] if len(now) == 1 else min(now, key=lambda n: (getattr(n, "lineno", 0), getattr(n, "col_offset", 0)))
+            consumed = self._consume(fr, c, st)
+            for kind, ret, st2 in (consumed if consumed is not None else self._call(fr, c, st)):
+                if kind == "exc":
+                    out.append(("exc", None, st2))
+                    continue
+                self._nph += 1
+                ph = f"ret%{self._nph}"
+                st2.env[ph] = ret if ret is not None and self._pure(ret) else ast.Name(id=f"{ph}@{fr.fi.name}", ctx=ast.Load())
+                out.extend(self._hoist_calls(fr, self._replace(e, c, ast.Name(id=ph, ctx=ast.Load())), st2, depth + 1))
+            return out
+        # only conditionally evaluated ones are left: decide the condition in front of the first of them
+        for k in _uncond(e):
+            if isinstance(k, ast.BoolOp) and any(any(n is p for n in _all_exprs(v)) for v in k.values[1:] for p in pending):
+                i = next(i for i, v in enumerate(k.values) if i and any(n is p for n in _all_exprs(v) for p in pending))
+                head = k.values[0] if i == 1 else ast.BoolOp(op=k.op, values=k.values[:i])
+                tail = k.values[i] if i == len(k.values) - 1 else ast.BoolOp(op=k.op, values=k.values[i:])
+                for lab in (True, False):
+                    st2 = st.copy()
+                    if not self.assume(self.C(fr, head, st2), lab, st2):
+                        continue
+                    # `a and b` is b when a is truthy, else a;  `a or b` is a when a is truthy, else b
+                    value = tail if lab == isinstance(k.op, ast.And) else head
+                    out.extend(self._hoist_calls(fr, self._replace(e, k, value), st2, depth + 1))
+                return out
+            if isinstance(k, ast.IfExp) and any(any(n is p for n in _all_exprs(v)) for v in (k.body, k.orelse) for p in pending):
+                for lab in (True, False):
+                    st2 = st.copy()
+                    if self.assume(self.C(fr, k.test, st2), lab, st2):
+                        out.extend(self._hoist_calls(fr, self._replace(e, k, k.body if lab else k.orelse), st2, depth + 1))
+                return out
+        raise AnalysisError(f"undecided: cannot order the helper calls in `{norm(e)[:80]}`")
+
+    def _has_effects(self, h: FuncInfo) -> bool:
+        for n in walk_no_nested(h.node):
+            if isinstance(n, ast.Call) and (self.site_of(n) or (isinstance(n.func, ast.Attribute) and n.func.attr == "enable")):
+                return True
+            if isinstance(n, (ast.Assign, ast.AugAssign, ast.AnnAssign, ast.Delete)):
+                tg = n.targets if isinstance(n, (ast.Assign, ast.Delete)) else [n.target]
+                if any(not isinstance(e, ast.Name) for t in tg for e in (t.elts if isinstance(t, (ast.Tuple, ast.List)) else [t])):
+                    return True
+        return False
+
+    # ---------------------------------------------------------------- generator helpers
+    def _gen_start(self, fr: _Frame, call: ast.AST, st: _St) -> tuple | None:
+        """(frame, entry node, environment, used edges) of the new generator helper that `call` creates, or None"""
+        call = strip_cast(call)
+        if not isinstance(call, ast.Call):
+            return None
+        hs = self._callees(fr, call, st, gen=True)
+        if not hs:
+            return None
+        if len(hs) > 1:
+            raise AnalysisError(f"undecided: `{norm(call)[:80]}` may create several different new generators")
+        env = self._bind(fr, hs[0], call, st)
+        if env is None:
+            raise AnalysisError(f"undecided: cannot bind the arguments of `{norm(call)[:80]}` to new generator {hs[0].qualname}")
+        self.followed.add(self._oid(call))
+        self.helpers.add(hs[0])
+        gfr = _Frame(hs[0], self.ctx.cfg(hs[0]), fr, call)
+        gfr.is_gen = True
+        return gfr, gfr.cfg.entry, env, frozenset()
+
+    def _gen_advance(self, gen: tuple, st: _St) -> list:
+        """run the suspended generator up to its next yield / its end: [("yield", value, state, gen') | ("end", None, state, None) |
+        ("exc", None, state, None)]; the returned states carry the CALLER's environment again"""
+        gfr, node, genv, gused = gen
+        st2 = st.copy()
+        caller_env, caller_ret = st2.env, st2.ret
+        st2.env, st2.ret = dict(genv), None
+        raw: list = []
+        self._dfs(gfr, node, st2, gused, raw)
+        out = []
+        for item in raw:
+            kind, val, st3 = item[0], item[1], item[2].copy()
+            nxt = (gfr, item[3][0], dict(st3.env), item[3][1]) if kind == "yield" else None
+            st3.env, st3.ret = dict(caller_env), caller_ret
+            out.append(("end" if kind == "ret" else kind, val if kind == "yield" else None, st3, nxt))
+        return out
+
+    def _consume(self, fr: _Frame, call: ast.Call, st: _St) -> list | None:
+        """any(G) / all(G) / next(G[, default]) over a walked generator helper G: [(kind, value, state)] like _call, else None"""
+        name = chain(call.func)
+        if name not in ("any", "all", "next") or not call.args or call.keywords or len(call.args) > (2 if name == "next" else 1):
+            return None
+        gen = self._gen_start(fr, call.args[0], st)
+        if gen is None:
+            return None
+        out: list = []
+        todo = [(gen, st)]
+        while todo:
+            g, s = todo.pop()
+            for kind, val, s2, nxt in self._gen_advance(g, s):
+                if kind == "exc":
+                    out.append(("exc", None, s2))
+                elif kind == "end":
+                    if name == "next":
+                        if len(call.args) == 2:
+                            out.append(("ret", self.C(fr, call.args[1], s2), s2))
+                        else:
+                            out.append(("exc", None, s2))       # StopIteration
+                    else:
+                        out.append(("ret", ast.Constant(value=name == "all"), s2))
+                elif name == "next":
+                    out.append(("ret", val, s2))
+                else:
+                    stop, go = s2.copy(), s2.copy()
+                    if self.assume(val, name == "any", stop):         # any() stops at the first truthy item, all() at the first falsy one
+                        out.append(("ret", ast.Constant(value=name == "any"), stop))
+                    if self.assume(val, name != "any", go):
+                        todo.append((nxt, go))
+        return out
+
+    def _eval_loop(self, fr: _Frame, u, st: _St) -> list:
+        s = u.ast
+        if isinstance(s, ast.For):
+            gkey = (fr.key, u.id)
+            gen = st.gens.get(gkey) or self._gen_start(fr, s.iter, st)
+            if gen is not None:
+                # a loop over a new generator helper: its body runs once per yield, the generator resumes when the body falls
+                # through / continues
+                res = []
+                for kind, val, st2, nxt in self._gen_advance(gen, st):
+                    if kind == "yield":
+                        st2.gens[gkey] = nxt
+                        st2.iters[gkey] = st2.iters.get(gkey, 0) + 1
+                        self._bind_target(fr, s.target, val, st2, u)
+                        res.append((True, st2))
+                    elif kind == "end":
+                        st2.gens.pop(gkey, None)
+                        st2.iters.pop(gkey, None)
+                        res.append((False, st2))
+                    else:
+                        res.append(("exc", st2))
+                return res
+            it = self.C(fr, s.iter, st)
+            if isinstance(it, (ast.Tuple, ast.List)) and not any(isinstance(e, ast.Starred) for e in it.elts):
+                # a loop over a literal sequence is the sequence of its bodies
+                k = st.iters.get((fr.key, u.id), 0)
+                st2 = st.copy()
+                if k < len(it.elts):
+                    st2.iters[(fr.key, u.id)] = k + 1
+                    self._bind_target(fr, s.target, it.elts[k], st2, u)
+                    return [(True, st2)]
+                st2.iters.pop((fr.key, u.id), None)
+                return [(False, st2)]
+        st2 = st.copy()
+        body = [n for b in s.body for n in ast.walk(b)]
+        drastic = any(isinstance(n, (ast.Await, ast.AsyncFor, ast.AsyncWith)) or
+                      (isinstance(n, ast.Call) and isinstance(n.func, ast.Attribute) and n.func.attr == "enable") or
+                      (isinstance(n, (ast.Attribute, ast.Subscript)) and isinstance(n.ctx, (ast.Store, ast.Del))) for n in body) \
+            or isinstance(s, ast.AsyncFor)
+        if drastic:
+            # what the body may change: `.enabled` (enable()), the attributes / items it stores into, object state across an await
+            texts = set()
+            for n in body:
+                if isinstance(n, (ast.Await, ast.AsyncFor, ast.AsyncWith)) or isinstance(s, ast.AsyncFor):
+                    texts.add("self.")
+                elif isinstance(n, ast.Call) and isinstance(n.func, ast.Attribute) and n.func.attr == "enable":
+                    texts.add(".enabled")
+                elif isinstance(n, ast.Attribute) and isinstance(n.ctx, (ast.Store, ast.Del)):
+                    texts.add("." + n.attr)
+                elif isinstance(n, ast.Subscript) and isinstance(n.ctx, (ast.Store, ast.Del)):
+                    texts.add(norm(self.C(fr, n.value, st2)))
+            for t in texts:
+                self._kill(st2, t, store=t not in ("self.", ".enabled"))
+        names = {n.id for n in body if isinstance(n, ast.Name) and isinstance(n.ctx, (ast.Store, ast.Del))}
+        if isinstance(s, (ast.For, ast.AsyncFor)):
+            names |= {n.id for n in ast.walk(s.target) if isinstance(n, ast.Name)}
+        for name in names:
+            tok = self._opaque(fr, name, u)
+            tok.id += "~"
+            st2.env[name] = tok
+        if isinstance(s, (ast.For, ast.AsyncFor)):
+            return [(True, st2), (False, st2.copy())]
+        return [(None, st2)]
+
+    # ---------------------------------------------------------------- sites
+    def _sites_in_comprehension(self, fr: _Frame, g: ast.AST, st: _St, u) -> None:
+        """a generator / list comprehension over a literal sequence evaluates its element once per item"""
+        if len(g.generators) != 1 or g.generators[0].ifs or g.generators[0].is_async:
+            return
+        gen = g.generators[0]
+        items = _literal_items(self.C(fr, gen.iter, st))
+        if items is None:
+            return
+        inner = [n for n in _all_exprs(g.elt) if isinstance(n, (ast.Call, ast.Subscript)) and self.site_of(n)]
+        if not inner:
+            return
+        for it in items:
+            st2 = st.copy()
+            self._bind_target(fr, gen.target, it, st2, u)
+            for n in inner:
+                self._at_site(fr, n, self.site_of(n), st2, through=g)
+
+    def _at_site(self, fr: _Frame, call: ast.Call, tag: str, st: _St, through: ast.AST | None = None) -> None:
+        st2 = st
+        cur, p = call, parent(call)
+        pre: list[tuple[ast.AST, bool]] = []
+        while p is not None and isinstance(p, ast.expr):
+            if isinstance(p, ast.BoolOp):
+                idx = next((i for i, v in enumerate(p.values) if v is cur), 0)
+                pre.extend((v, isinstance(p.op, ast.And)) for v in p.values[:idx])
+            elif isinstance(p, ast.IfExp) and cur is not p.test:
+                pre.append((p.test, cur is p.body))
+            elif isinstance(p, _NEST) and p is not through:
+                return                      # evaluated in another scope / later: not this path
+            cur, p = p, parent(p)
+        if pre:
+            st2 = st.copy()
+            for v, pol in pre:
+                if not self.assume(self.C(fr, v, st2), pol, st2):
+                    return                  # not evaluated on this path
+        r = dict(self.on_site(self, fr, call, tag, st2))
+        self.results.setdefault(id(call), []).append(r)
+        self.site_nodes[id(call)] = (fr, call, tag)
+        if not all(r.values()) or id(call) not in self.site_facts:
+            self.site_facts[id(call)] = st2.describe()
+
+    # ---------------------------------------------------------------- helper calls
+    def _callees(self, fr: _Frame, call: ast.Call, st: _St, gen: bool = False) -> list[FuncInfo]:
+        """the NEW functions (not in the reviewed tree) this call may run; [] when it is not a call of a new function
+        (gen: the new GENERATOR functions instead - calling one runs nothing, iterating over the result does)"""
+        if fr.depth >= _FOLLOW_DEPTH or not self.new_funcs:
+            return []
+        f = strip_cast(call.func)
+        if isinstance(f, ast.Name) and f.id in st.env:
+            todo = [st.env[f.id]]
+        elif isinstance(f, ast.Subscript):
+            todo = [self.C(fr, f, st)]
+        else:
+            todo = [f]
+        out: list[FuncInfo] = []
+        while todo:
+            o = todo.pop()
+            if isinstance(o, ast.Subscript) and isinstance(o.value, ast.Dict):
+                todo.extend(v for v in o.value.values if v is not None)      # a dispatch table denotes the set of its values
+                continue
+            if isinstance(o, ast.Subscript) and isinstance(o.value, (ast.Tuple, ast.List)):
+                todo.extend(o.value.elts)
+                continue
+            if isinstance(o, ast.IfExp):
+                todo.extend([o.body, o.orelse])
+                continue
+            name = o.attr if isinstance(o, ast.Attribute) else o.id if isinstance(o, ast.Name) else None
+            cands = self.new_funcs.get(name or "", [])
+            if isinstance(o, ast.Name):       # a bare name calls a module function or a closure, never a method
+                cands = [g for g in cands if g.cls is None or enclosing_function(g.node) is not None]
+            else:
+                cands = [g for g in cands if enclosing_function(g.node) is None]
+            if not cands:
+                continue
+            if len(cands) > 1 or name in self.known_names:
+                # the name is not unique: only the model's own resolution of the call (self / cls / typed receiver) decides
+                tg = [g for g in self.repo.resolve_call(fr.fi, call) if g in cands]
+                if not tg and name in self.known_names and len(cands) == 1:
+                    continue
+                if len(tg) != 1:
+                    raise AnalysisError(f"undecided: call `{norm(call)[:80]}` may reach several new helpers named {name}")
+                cands = tg
+            g = cands[0]
+            is_gen = any(isinstance(n, ast.Yield) for n in walk_no_nested(g.node))
+            if any(fr2.fi == g for fr2 in fr.chain()) or any(isinstance(n, ast.YieldFrom) for n in walk_no_nested(g.node)) or is_gen != gen:
+                continue
+            if g not in out:
+                out.append(g)
+        return out
+
+    def _bind(self, fr: _Frame, h: FuncInfo, call: ast.Call, st: _St) -> dict | None:
+        """environment of helper h for this call: parameter -> canonical argument (None: cannot be bound)"""
+        a = h.node.args
+        if a.vararg or a.kwarg or any(isinstance(x, ast.Starred) for x in call.args) or any(k.arg is None for k in call.keywords):
+            return None
+        pos = [p.arg for p in a.posonlyargs + a.args]
+        args = [self.C(fr, x, st) for x in call.args]
+        nested = enclosing_function(h.node) is not None
+        is_method = h.cls is not None and not nested and "staticmethod" not in h.decorator_names()
+        f = strip_cast(call.func)
+        if isinstance(f, ast.Name) and f.id in st.env:
+            f = st.env[f.id]                     # a local that holds the callable (already canonical)
+            recv = clone(f.value) if isinstance(f, ast.Attribute) else None
+        elif isinstance(f, ast.Attribute):
+            recv = self.C(fr, f.value, st)
+        else:
+            recv = None
+        if is_method:
+            if recv is None:
+                recv = clone(st.env["self"]) if "self" in st.env else ast.Name(id="self", ctx=ast.Load())
+            if not (isinstance(recv, ast.Name) and recv.id == h.cls.name):      # Class.method(obj, ..) passes obj itself
+                args = [recv, *args]
+        if len(args) > len(pos):
+            return None
+        bound: dict[str, ast.AST] = dict(zip(pos, args))
+        for k in call.keywords:
+            if k.arg in bound:
+                return None
+            bound[k.arg] = self.C(fr, k.value, st)
+        hfr, hst = _Frame(h, None, fr, call), _St()
+        for p, d in zip(pos[len(pos) - len(a.defaults):], a.defaults):
+            if p not in bound:
+                bound[p] = self.C(hfr, d, hst)
+        for p, d in zip(a.kwonlyargs, a.kw_defaults):
+            if d is not None and p.arg not in bound:
+                bound[p.arg] = self.C(hfr, d, hst)
+        if set(bound) != set(pos) | {p.arg for p in a.kwonlyargs}:
+            return None
+        env = dict(st.env) if nested and any(fr2.fi.node is enclosing_function(h.node) for fr2 in fr.chain()) else {}
+        env.update(bound)
+        return env
+
+    def _call(self, fr: _Frame, call: ast.Call, st: _St) -> list:
+        outs: list = []
+        for h in self._callees(fr, call, st):
+            env = self._bind(fr, h, call, st)
+            if env is None:
+                raise AnalysisError(f"undecided: cannot bind the arguments of `{norm(call)[:80]}` to new helper {h.qualname}")
+            self.followed.add(self._oid(call))
+            self.helpers.add(h)
+            fr2 = _Frame(h, self.ctx.cfg(h), fr, call)
+            st2 = st.copy()
+            st2.env, st2.ret = env, None
+            for kind, ret, st3 in self._paths(fr2, st2):
+                st3 = st3.copy()
+                st3.env, st3.ret = dict(st.env), st.ret
+                outs.append((kind, ret, st3))
+        return outs
 
 
 # ------------------------------------------------------------------------------------------ policy
-def _atom_is_allowed(fi: FuncInfo):
-    data = fi.params()[1]
+def _table_rows(ctx: Ctx, fi: FuncInfo, atoms: dict[str, list[tuple]], ingredients: tuple[str, ...]):
+    """(assignment, set of truth values fi can return under it) for all assignments of the named atoms; each atom is
+    given by the fact keys of its accepted spellings.  The function is walked path by path (loops over literal tables,
+    any()/all(), flags, ternaries, early returns and new helpers included)."""
+    sym = _Sym(ctx, fi, lambda c: None, lambda *a: {})
+    names = list(atoms)
+    for vals in itertools.product([False, True], repeat=len(names)):
+        env = dict(zip(names, vals))
+        seed = {k: env[a] for a in names for k in atoms[a]}
+        got = set()
+        for t, ret, st in sym.decide(seed):
+            # a condition outside the atoms: a possible re-spelling of an atom cannot be judged; anything else is a
+            # dependency the documented table does not have (both outcomes are possible)
+            guessed = [a for a in [*st.assumed, *([norm(ret)] if t is None else [])] if any(i in a for i in ingredients)]
+            if guessed:
+                raise AnalysisError(f"undecided: {fi.qualname} tests `{guessed[0][:90]}`, not one of the recognised spellings of its atoms")
+            got |= {True, False} if t is None else {t}
+        if not got:
+            raise AnalysisError(f"undecided: {fi.qualname} has no returning path under {env}")
+        yield env, got
 
-    def atom(e):
-        e = strip_cast(e)
-        if not isinstance(e, (ast.Name, ast.Call, ast.Compare)):
-            return None
-        if isinstance(e, ast.Name) and not isinstance(e.ctx, ast.Load):
-            return None
-        e = _canon(_expand(fi, e))
-        if isinstance(e, ast.Call) and chain(e.func) in ("DataChecker.could_be_bt", "DataChecker.could_be_ipv8") \
-                and len(e.args) == 1 and not e.keywords and chain(e.args[0]) == data:
-            return "bt" if chain(e.func).endswith("bt") else "v8"
-        if isinstance(e, ast.Compare) and len(e.ops) == 1:
-            l, op, r = e.left, e.ops[0], e.comparators[0]
-            if isinstance(op, ast.In) and chain(r) == FLAGS and chain(l) in ("PEER_FLAG_EXIT_BT", "PEER_FLAG_EXIT_IPV8"):
-                return "BT" if chain(l) == "PEER_FLAG_EXIT_BT" else "V8"
-            if isinstance(op, ast.Eq):
-                sides = {norm(l), norm(r)}
-                if sides == {"self.overlay.get_prefix()", f"{data}[:22]"}:
-                    return "own"
-        return None
-    return atom
+
+def _sorted_eq(a: str, b: str) -> tuple:
+    return ("eq", *sorted((a, b)))
 
 
 def rule_policy_table(ctx: Ctx) -> None:
@@ -189,29 +1574,23 @@ def rule_policy_table(ctx: Ctx) -> None:
     data = fi.params()[1]
     ctx.check(not local_defs(fi, data), "policy-table", fi, fi.node, "is_allowed judges the data it was given",
               "is_allowed rebinds its data parameter before classifying it")
-    ev = _Table(fi, _atom_is_allowed(fi))
-    atoms = ["bt", "v8", "BT", "V8", "own"]
-    found = ev.discover()
-    ctx.check(set(found) == set(atoms), "policy-table", fi, fi.node, f"atoms of is_allowed = {atoms}",
-              f"is_allowed no longer depends on exactly the atoms {atoms}: found {found}")
-    if set(found) - set(atoms):
-        return
+    prefix = "self.overlay.get_prefix()"
+    atoms = {
+        "bt": [("truthy", f"DataChecker.could_be_bt({data})", None)],
+        "v8": [("truthy", f"DataChecker.could_be_ipv8({data})", None)],
+        "BT": [("in", "PEER_FLAG_EXIT_BT", FLAGS)],
+        "V8": [("in", "PEER_FLAG_EXIT_IPV8", FLAGS)],
+        # "the packet starts with this overlay's 22-byte prefix" (b"\x00" + version + 20-byte community id)
+        "own": [_sorted_eq(prefix, f"{data}[:22]"), _sorted_eq(prefix, f"{data}[:len({prefix})]"),
+                ("truthy", f"{data}.startswith({prefix})", None)],
+    }
     bad = []
-    n = 0
-    for vals in itertools.product([False, True], repeat=5):
-        env = dict(zip(atoms, vals))
-        try:
-            got = ev.run(env)
-        except AnalysisError:
-            raise
-        if isinstance(got, Opaque):
-            raise AnalysisError(f"is_allowed returns an expression the table evaluator cannot decide: {got}")
-        want = (env["bt"] and env["BT"]) or (env["v8"] and env["V8"]) or (env["v8"] and env["own"])
-        n += 1
-        ok = bool(got) == bool(want) and got is not None
-        ctx.instance("policy-table", fi.where, f"row {env} -> {got} (spec {want})", ok=ok)
+    for env, got in _table_rows(ctx, fi, atoms, (data, "peer_flags", "get_prefix", "could_be_", "PEER_FLAG")):
+        want = bool((env["bt"] and env["BT"]) or (env["v8"] and env["V8"]) or (env["v8"] and env["own"]))
+        ok = got == {want}
+        ctx.instance("policy-table", fi.where, f"row {env} -> {sorted(got)} (spec {want})", ok=ok)
         if not ok:
-            bad.append((env, got, want))
+            bad.append((env, sorted(got), want))
     if bad:
         env, got, want = bad[0]
         ctx.violation("policy-table", fi, fi.node,
@@ -228,59 +1607,219 @@ def rule_policy_table(ctx: Ctx) -> None:
               f"peer flags are distinct constants {vals}", f"peer flag constants collide: {vals}")
 
 
-def _gate_fact(fi: FuncInfo, facts, data_expr: ast.AST) -> bool:
-    """A dominating truthy `self.is_allowed(p)` (possibly held in a local) where p is the never-rebound parameter that the
-    emitted expression denotes."""
-    root = _param_root(fi, data_expr)
+NULL_ADDRESS = ("0.0.0.0", 0)
+ANON = "ipv8/messaging/anonymization/"
+
+
+def _sim(ctx: Ctx, key: str, build) -> _Sym:
+    cache = ctx.extra.setdefault("c06_sims", {})
+    if key not in cache:
+        cache[key] = build().run()
+    return cache[key]
+
+
+def _root_param(sym: _Sym, x: ast.AST | None) -> str | None:
+    """the parameter of the walked function whose (never reassigned on this path) value x is"""
+    return x.id if isinstance(x, ast.Name) and x.id in sym.fi.params() else None
+
+
+def _allowed_on(st: _St, root: str | None) -> bool:
+    """the path established a truthy self.is_allowed(<root>)"""
     if root is None:
         return False
-    for f in facts:
-        if f.op == "truthy" and f.pos:
-            e = _expand(fi, f.left)
-            if isinstance(e, ast.Call) and chain(e.func) == "self.is_allowed" and len(e.args) == 1 and not e.keywords \
-                    and isinstance(e.args[0], ast.Name) and e.args[0].id == root:
+
+    def pred(f: Fact) -> bool:
+        if not (f.op == "truthy" and f.pos and isinstance(f.left, ast.Call) and chain(f.left.func) == "self.is_allowed"):
+            return False
+        a = arg(f.left, 0, "data")
+        return isinstance(a, ast.Name) and a.id == root and len(f.left.args) + len(f.left.keywords) == 1
+    return st.holds(pred)
+
+
+def _not_null_on(st: _St, x: ast.AST | None) -> bool:
+    """the path established x != ('0.0.0.0', 0) (as one comparison, or through one of its two components)"""
+    if x is None:
+        return False
+    tx = norm(x)
+
+    def pred(f: Fact) -> bool:
+        if f.op != "eq" or f.pos:
+            return False
+        for a, b in ((f.left, f.right), (f.right, f.left)):
+            if norm(a) == tx and const_value(b) == NULL_ADDRESS:
                 return True
-    return False
+            for i in (0, 1):
+                if norm(a) == f"{tx}[{i}]" and const_value(b) == NULL_ADDRESS[i] and type(const_value(b)) is type(NULL_ADDRESS[i]):
+                    return True
+        return False
+    return st.holds(pred)
+
+
+def _site_tag(call: ast.AST) -> str | None:
+    if not isinstance(call, ast.Call):
+        return None
+    n = call_name(call)
+    if n == "sendto":
+        return "requeue" if chain(call.func) == "self.sendto" else "emit"
+    if n == "tunnel_data":
+        return "tunnel"
+    if n == "exit_data":
+        return "exit_data"
+    if n == "enable" and isinstance(call.func, ast.Attribute) and not call.args and not call.keywords:
+        return "enable"
+    return None
+
+
+def _sendto_sim(ctx: Ctx) -> _Sym:
+    fi = ctx.repo.method("TunnelExitSocket", "sendto", ES)
+
+    def on_site(sym: _Sym, fr: _Frame, c: ast.Call, tag: str, st: _St) -> dict:
+        if tag != "emit":
+            return {}
+        d, a = arg(c, 0, "data"), arg(c, 1, "addr")
+        xd = sym.C(fr, d, st) if d is not None else None
+        xa = sym.C(fr, a, st) if a is not None else None
+        return {"gate": _allowed_on(st, _root_param(sym, xd)), "null": _root_param(sym, xa) is not None and _not_null_on(st, xa)}
+    return _sim(ctx, "sendto", lambda: _Sym(ctx, fi, _site_tag, on_site))
+
+
+def _datagram_sim(ctx: Ctx) -> _Sym:
+    fi = ctx.repo.method("TunnelExitSocket", "datagram_received", ES)
+
+    def on_site(sym: _Sym, fr: _Frame, c: ast.Call, tag: str, st: _St) -> dict:
+        if tag != "tunnel":
+            return {}
+        d = arg(c, 1, "data")
+        return {"gate": d is not None and _allowed_on(st, _root_param(sym, sym.C(fr, d, st)))}
+    return _sim(ctx, "datagram_received", lambda: _Sym(ctx, fi, _site_tag, on_site))
+
+
+def _on_data_sim(ctx: Ctx) -> _Sym:
+    fi = ctx.repo.method("TunnelCommunity", "on_data", TC)
+
+    def on_site(sym: _Sym, fr: _Frame, c: ast.Call, tag: str, st: _St) -> dict:
+        if tag != "exit_data":
+            return {}
+        d = arg(c, 2, "destination")
+        xd = sym.C(fr, d, st) if d is not None else None
+        return {"null": _not_null_on(st, xd), "payload": xd is not None and (chain(xd) or "").endswith(".dest_address")}
+    return _sim(ctx, "on_data", lambda: _Sym(ctx, fi, _site_tag, on_site))
+
+
+def _enable_idempotent(ctx: Ctx) -> bool:
+    """TunnelExitSocket.enable() does nothing when the socket is already enabled"""
+    en = ctx.repo.method("TunnelExitSocket", "enable", ES)
+    cfg = ctx.cfg(en)
+    for n in cfg.nodes:
+        a = n.ast
+        if n.kind != "stmt" or a is None or isinstance(a, (ast.FunctionDef, ast.AsyncFunctionDef, ast.Pass)):
+            continue
+        if isinstance(a, ast.Expr) and (isinstance(a.value, ast.Constant) or (chain(a.value) or "").startswith("self.logger.")):
+            continue
+        if isinstance(a, ast.Return) and a.value is None:
+            continue
+        if not unreachable_assuming(cfg, n, lambda f: {norm(x) for x in (f.left, f.right) if x is not None} & {"self.enabled"}
+                                    and not _says_enabled(f)):
+            return False
+    return True
+
+
+def _says_enabled(f: Fact) -> bool:
+    """the fact is compatible with `self.enabled` being truthy"""
+    if f.op == "truthy":
+        return f.pos
+    if f.op in ("is", "eq"):
+        for b in (f.left, f.right):
+            if isinstance(b, ast.Constant) and isinstance(b.value, bool):
+                return f.pos == b.value
+    return True
+
+
+def _exit_data_sim(ctx: Ctx) -> _Sym:
+    ex = ctx.repo.method("TunnelCommunity", "exit_data", TC)
+    params = ex.params()
+    cid, sock = params[1], params[2]
+    reg = f"self.exit_sockets[{cid}]"          # the socket registered under the cell's circuit id
+    idem = _enable_idempotent(ctx)
+
+    def on_site(sym: _Sym, fr: _Frame, c: ast.Call, tag: str, st: _St) -> dict:
+        if tag not in ("enable", "emit") or not isinstance(c.func, ast.Attribute):
+            return {}
+        out = {"recv": norm(sym.C(fr, c.func.value, st)) == reg,
+               "fresh": not any(t.startswith("self.exit_sockets") for t in st.stored)}
+        enabled = st.known("truthy", f"{reg}.enabled") is True
+        if tag == "enable":
+            ip = st.known("eq", f"{sock}[0]", f"{reg}.hop.address[0]") is True
+            out["ip"] = ip or (idem and enabled)
+        else:
+            out["known"] = (st.known("in", cid, "self.exit_sockets") is True or st.known("truthy", reg) is True
+                            or st.known("is", reg, "None") is False)
+            out["enabled"] = enabled
+        return out
+    return _sim(ctx, "exit_data", lambda: _Sym(ctx, ex, _site_tag, on_site))
+
+
+def _via_helper(ctx: Ctx, sym: _Sym, fi: FuncInfo | None, c: ast.Call) -> bool:
+    """c sits in a NEW helper that was walked from sym's function with the caller's facts, the call was judged there, and the
+    helper cannot be entered any other way (every call of it in the repository was followed by that walk)"""
+    if fi is None or fi not in sym.helpers or id(c) not in sym.results:
+        return False
+    if not all(id(k) in sym.followed for _, _, k in ctx.repo.callers_of_name(fi.name)):
+        return False
+    # and it is not handed around as a value (callback, table entry outside a followed call)
+    for m in ctx.repo.modules.values():
+        for n in ast.walk(m.tree):
+            named = (isinstance(n, ast.Attribute) and n.attr == fi.name) or (isinstance(n, ast.Name) and n.id == fi.name and isinstance(n.ctx, ast.Load))
+            if not named:
+                continue
+            p = parent(n)
+            if isinstance(p, ast.Call) and p.func is n and id(p) in sym.followed:
+                continue
+            # an entry of a literal dispatch table / a local that holds the callable, inside a walked function: the call through it
+            # was followed (a dispatch table denotes the set of its values); an argument of another call (callback) is not
+            walked = ctx.repo.function_of(n)
+            if isinstance(p, (ast.Tuple, ast.List, ast.Dict, ast.Assign, ast.IfExp)) and walked is not None \
+                    and (walked == sym.fi or walked in sym.helpers):
+                continue
+            return False
+    return True
+
+
+def _unwalked(sym: _Sym, fi: FuncInfo, tag: str) -> None:
+    for c in calls(fi):
+        if _site_tag(c) == tag and id(c) not in sym.results:
+            raise AnalysisError(f"undecided: `{norm(c)[:80]}` in {fi.qualname} is not evaluated on any path the walk considers feasible")
 
 
 def rule_gates(ctx: Ctx) -> None:
     repo = ctx.repo
     sendto = repo.method("TunnelExitSocket", "sendto", ES)
-    cfg = ctx.cfg(sendto)
-    emit = [c for c in calls(sendto) if call_name(c) == "sendto" and chain(c.func) != "self.sendto"]
-    ctx.anchor(emit, "transport.sendto call in TunnelExitSocket.sendto")
-    for c in emit:
-        facts = facts_at(cfg, c)
-        ok = _gate_fact(sendto, facts, arg(c, 0, "data"))
-        ctx.check(ok, "gate-out", sendto, c, "transport.sendto(data, ..) dominated by truthy is_allowed(data) on the same data",
-                  "data can reach the outside socket without passing the exit policy (or a different buffer is checked)",
-                  [str(f) for f in facts])
+    sym = _sendto_sim(ctx)
+    _unwalked(sym, sendto, "emit")
+    emit = ctx.anchor(sym.sites("emit"), "transport.sendto call reached from TunnelExitSocket.sendto")
+    for fr, c in emit:
+        facts = sym.site_facts.get(id(c), [])
+        ctx.check(sym.verdict(c, "gate"), "gate-out", fr.fi, c, "transport.sendto(data, ..) only on paths with a truthy is_allowed(data) on the same data",
+                  "data can reach the outside socket without passing the exit policy (or a different buffer is checked)", facts)
         # the address actually handed to the transport (after any domain-name resolution re-entered sendto) is not the null address
-        dest = arg(c, 1, "addr")
-        xdest = _expand(sendto, dest) if dest is not None else None
-        null_ok = False
-        for f in facts:
-            if f.op == "eq" and not f.pos and xdest is not None:
-                sides = [_expand(sendto, f.left), _expand(sendto, f.right)]
-                if any(same_expr(x, xdest) for x in sides) and any(const_value(x) == ("0.0.0.0", 0) for x in sides):
-                    null_ok = True
-        ctx.check(null_ok and isinstance(xdest, ast.Name) and xdest.id in sendto.params() and not local_defs(sendto, xdest.id),
-                  "null-destination", sendto, c, "transport.sendto(data, destination) dominated by destination != ('0.0.0.0', 0) on the emitted address",
+        ctx.check(sym.verdict(c, "null"), "null-destination", fr.fi, c,
+                  "transport.sendto(data, destination) only on paths with destination != ('0.0.0.0', 0) on the emitted address",
                   "the address handed to the outside socket is not re-checked: a domain name that resolves to 0.0.0.0 (e.g. '0') with port 0 "
-                  "passes on_data's test and is emitted towards 0.0.0.0:0", [str(f) for f in facts])
+                  "passes on_data's test and is emitted towards 0.0.0.0:0", facts)
     # queued / re-entrant sends go through sendto again (and are re-checked there)
     for c in calls(sendto, "self.queue.append"):
         ctx.check(True, "gate-out", sendto, c, "queued data is replayed through self.sendto (re-checked)")
     # nested resolution callback re-enters self.sendto
     for sub in [f for f in sendto.module.all_functions if f.qualname.startswith("TunnelExitSocket.sendto.")]:
         for c in calls(sub):
-            if call_name(c) == "sendto":
+            if call_name(c) == "sendto" and id(c) not in sym.results:
                 ctx.check(chain(c.func) == "self.sendto", "gate-out", sub, c, "resolution callback re-enters self.sendto",
                           "the DNS resolution callback emits without re-entering the policy gate")
     # who may call what
+    xsym = _exit_data_sim(ctx)
     n = 0
     for fi in repo.all_functions():
-        if not fi.module.relpath.startswith("ipv8/messaging/anonymization/"):
+        if not fi.module.relpath.startswith(ANON):
             continue
         for c in calls(fi):
             if call_name(c) != "sendto":
@@ -290,11 +1829,11 @@ def rule_gates(ctx: Ctx) -> None:
             if ch == "self.sendto":
                 ok = fi.qualname.startswith("TunnelExitSocket.")
                 why = "self.sendto used outside TunnelExitSocket"
-            elif "exit_sockets" in ch or _is_exit_socket_alias(fi, c):
-                ok = fi.qualname == "TunnelCommunity.exit_data"
+            elif "exit_sockets" in ch or _is_exit_socket_alias(fi, c) or id(c) in xsym.results:
+                ok = fi.qualname == "TunnelCommunity.exit_data" or _via_helper(ctx, xsym, fi, c)
                 why = "exit_socket.sendto called outside TunnelCommunity.exit_data (previous-hop / null-destination checks bypassed)"
             else:
-                ok = fi.qualname == "TunnelExitSocket.sendto"
+                ok = fi.qualname == "TunnelExitSocket.sendto" or _via_helper(ctx, sym, fi, c)
                 why = "a transport's sendto is called outside TunnelExitSocket.sendto (exit policy bypassed)"
             ctx.check(ok, "gate-out.who", fi, c, f"sendto caller {fi.qualname}: {ch}", why)
     ctx.floor("gate-out.who", n, 4)
@@ -307,34 +1846,49 @@ def rule_gates(ctx: Ctx) -> None:
 
     # ---- inbound
     dr = repo.method("TunnelExitSocket", "datagram_received", ES)
-    cfg = ctx.cfg(dr)
-    td = ctx.anchor(calls(dr, "self.tunnel_data"), "tunnel_data call in datagram_received")
-    for c in td:
-        facts = facts_at(cfg, c)
-        data_arg = arg(c, 1, "data")
-        ok = data_arg is not None and _gate_fact(dr, facts, data_arg)
-        ctx.check(ok, "gate-in", dr, c, "tunnel_data(source, data) dominated by truthy is_allowed(data) on the same data",
-                  "data from the outside can enter the tunnel without passing the exit policy", [str(f) for f in facts])
+    dsym = _datagram_sim(ctx)
+    _unwalked(dsym, dr, "tunnel")
+    td = ctx.anchor(dsym.sites("tunnel"), "tunnel_data call reached from datagram_received")
+    for fr, c in td:
+        ctx.check(dsym.verdict(c, "gate"), "gate-in", fr.fi, c, "tunnel_data(source, data) only on paths with a truthy is_allowed(data) on the same data",
+                  "data from the outside can enter the tunnel without passing the exit policy", dsym.site_facts.get(id(c), []))
     for m, fi, c in repo.callers_of_name("tunnel_data"):
         if chain(c.func) == "self.tunnel_data" and fi is not None and fi.cls is not None and fi.cls.name == "TunnelExitSocket":
-            ctx.check(fi.qualname == "TunnelExitSocket.datagram_received", "gate-in.who", fi, c,
+            ctx.check(fi.qualname == "TunnelExitSocket.datagram_received" or _via_helper(ctx, dsym, fi, c), "gate-in.who", fi, c,
                       "TunnelExitSocket.tunnel_data called only from datagram_received",
                       "tunnel_data is called around the inbound policy gate")
         elif fi is not None and (fi.cls is None or not fi.cls.is_subclass_of("TunnelCommunity")):
-            ctx.check(False, "gate-in.who", fi, c, "no foreign caller of tunnel_data", "tunnel_data called from unexpected place")
+            ctx.check(_via_helper(ctx, dsym, fi, c), "gate-in.who", fi, c, "no foreign caller of tunnel_data", "tunnel_data called from unexpected place")
     # datagram_received_ipv4/6 forward to datagram_received
     for name in ("datagram_received_ipv4", "datagram_received_ipv6"):
         f2 = repo.method("TunnelExitSocket", name, ES)
         fw = calls(f2, "self.datagram_received")
         # anything that may have an effect besides the forward (logging / len / str / address constructors have none here)
         others = [c for c in calls(f2) if chain(c.func) not in ("self.datagram_received", "UDPv4Address", "UDPv6Address")
-                  and call_may_raise(c)]
+                  and call_may_raise(c) and not _pure_value_method(f2, c)]
         ctx.check(bool(fw) and not others, "gate-in", f2, f2.node, f"{name} only forwards to datagram_received",
                   f"{name} does something other than forwarding to the gated datagram_received")
         for c in fw:
             ctx.check(_param_root(f2, arg(c, 0, "data")) == f2.params()[1], "gate-in", f2, c,
                       f"{name} forwards the received data unchanged",
                       "the inbound callback forwards different data than it received")
+
+
+_VALUE_METHODS = {"startswith", "endswith", "lower", "upper", "split", "rsplit", "partition", "rpartition", "strip", "lstrip", "rstrip",
+                  "removeprefix", "removesuffix", "replace", "find", "index", "count", "isdigit", "encode", "decode", "format", "join", "hex"}
+
+
+def _pure_value_method(fi: FuncInfo, c: ast.Call) -> bool:
+    """a str / bytes / tuple method on a value derived from the function's own parameters or locals (not on self): no effect"""
+    f = c.func
+    if isinstance(f, ast.Name):
+        return f.id in _SIM_PURE
+    if not (isinstance(f, ast.Attribute) and f.attr in _VALUE_METHODS):
+        return False
+    root = f.value
+    while isinstance(root, (ast.Attribute, ast.Subscript, ast.Call)):
+        root = root.func if isinstance(root, ast.Call) else root.value
+    return isinstance(root, (ast.Name, ast.Constant)) and not (isinstance(root, ast.Name) and root.id in ("self", "cls"))
 
 
 def _is_exit_socket_alias(fi: FuncInfo, c: ast.Call) -> bool:
@@ -349,48 +1903,25 @@ def _is_exit_socket_alias(fi: FuncInfo, c: ast.Call) -> bool:
     return False
 
 
-def _enabled_edge(u, lab, is_enabled) -> bool:
-    """Does leaving cond node u by the edge `lab` establish that the registered socket is enabled?"""
-    if u.kind != "cond" or lab not in (True, False):
-        return False
-    f = fact_of(u.ast, lab)
-    if f.op == "truthy":
-        return f.pos and is_enabled(f.left)
-    if f.op in ("is", "eq"):
-        for a, b in ((f.left, f.right), (f.right, f.left)):
-            if is_enabled(a) and isinstance(b, ast.Constant) and isinstance(b.value, bool):
-                return f.pos == b.value
-    return False
-
-
 def rule_null_and_prev_hop(ctx: Ctx) -> None:
     repo = ctx.repo
     on_data = repo.method("TunnelCommunity", "on_data", TC)
-    cfg = ctx.cfg(on_data)
-    ed = ctx.anchor(calls(on_data, "self.exit_data"), "exit_data call in on_data")
-    for c in ed:
-        dest = arg(c, 2, "destination")
-        facts = facts_at(cfg, c)
-        ok = False
-        xdest = _expand(on_data, dest) if dest is not None else None
-        for f in facts:
-            if f.op == "eq" and not f.pos and dest is not None:
-                sides = [_expand(on_data, f.left), _expand(on_data, f.right)]
-                if any(same_expr(s, xdest) for s in sides) and any(const_value(s) == ("0.0.0.0", 0) for s in sides):
-                    ok = True
-        # destination is the payload's dest_address
-        src_ok = xdest is not None and (chain(xdest) or "").endswith(".dest_address")
-        ctx.check(ok and src_ok, "null-destination", on_data, c, "exit_data dominated by destination != ('0.0.0.0', 0)",
-                  "data addressed to 0.0.0.0:0 can be handed to the exit socket", [str(f) for f in facts])
+    osym = _on_data_sim(ctx)
+    _unwalked(osym, on_data, "exit_data")
+    ed = ctx.anchor(osym.sites("exit_data"), "exit_data call reached from on_data")
+    for fr, c in ed:
+        # the destination is the payload's dest_address, and it is not the null address on any path to the call
+        ctx.check(osym.verdict(c, "null") and osym.verdict(c, "payload"), "null-destination", fr.fi, c,
+                  "exit_data only on paths with destination != ('0.0.0.0', 0)",
+                  "data addressed to 0.0.0.0:0 can be handed to the exit socket", osym.site_facts.get(id(c), []))
     for m, fi, c in repo.callers_of_name("exit_data"):
-        ctx.check(fi is not None and fi.qualname == "TunnelCommunity.on_data", "null-destination.who", fi or m.relpath, c,
-                  "exit_data called only from on_data", "exit_data is called around the null-destination check")
+        ctx.check(fi is not None and (fi.qualname == "TunnelCommunity.on_data" or _via_helper(ctx, osym, fi, c)), "null-destination.who",
+                  fi or m.relpath, c, "exit_data called only from on_data", "exit_data is called around the null-destination check")
 
     ex = repo.method("TunnelCommunity", "exit_data", TC)
     cfg = ctx.cfg(ex)
     params = ex.params()
     cid, sock = params[1], params[2]
-    reg = f"self.exit_sockets[{cid}]"          # the socket registered under the cell's circuit id
 
     def X(e: ast.AST) -> str:
         return _xnorm(ex, e, dict_get=True)
@@ -400,58 +1931,44 @@ def rule_null_and_prev_hop(ctx: Ctx) -> None:
     for p in (cid, sock):
         ctx.check(not local_defs(ex, p), "previous-hop", ex, ex.node, f"exit_data judges the {p} it was given",
                   f"exit_data rebinds its parameter {p}: the previous-hop comparison no longer concerns the caller's value")
-    en = ctx.anchor([c for c in calls(ex) if call_name(c) == "enable"], "enable() call in exit_data")
-    sends = [c for c in calls(ex) if call_name(c) == "sendto"]
-    sinks = {n for c in [*en, *sends] for n in cfg.nodes_for(c)}
+    xsym = _exit_data_sim(ctx)
+    _unwalked(xsym, ex, "enable")
+    _unwalked(xsym, ex, "emit")
+    en = ctx.anchor(xsym.sites("enable"), "enable() call reached from exit_data")
+    sends = xsym.sites("emit")
+    sinks = {n for c in calls(ex) if _site_tag(c) in ("enable", "emit") for n in cfg.nodes_for(c)}
     for st, tgt in stores(ex, lambda c: True):
         if isinstance(tgt, ast.Name) or not X(tgt).startswith("self.exit_sockets"):
             continue
         before = any(s in cfg.reach(cfg.nodes_for(st)) for s in sinks)
         ctx.check(not before, "previous-hop", ex, st, "exit_data does not rewrite the registered socket / hop before using it",
                   "exit_data overwrites the registered exit socket or its hop address before the previous-hop comparison / send")
-    for c in en:
-        facts = facts_at(cfg, c)
-        ok_recv = X(c.func.value) == reg
-        ok = False
-        for f in facts:
-            if f.op == "eq" and f.pos:
-                sides = {X(f.left), X(f.right)}
-                if sides == {f"{sock}[0]", f"{reg}.hop.address[0]"}:
-                    ok = True
-        ctx.check(ok and ok_recv, "previous-hop", ex, c, "enable() dominated by sock_addr[0] == exit_sockets[cid].hop.address[0]",
+    for fr, c in [*en, *sends]:
+        ctx.check(xsym.verdict(c, "fresh"), "previous-hop", fr.fi, c, "nothing on the way rewrote the registered socket / hop",
+                  "the registered exit socket or its hop address is overwritten on a path to this call, before the previous-hop comparison / send")
+    for fr, c in en:
+        ctx.check(xsym.verdict(c, "ip") and xsym.verdict(c, "recv"), "previous-hop", fr.fi, c,
+                  "enable() only on paths with sock_addr[0] == exit_sockets[cid].hop.address[0] (or on an already enabled socket)",
                   "the outside socket can be opened by data that did not come from the circuit's previous hop",
-                  [str(f) for f in facts])
+                  xsym.site_facts.get(id(c), []))
     # the send itself: either socket already enabled or just enabled by the checked branch
-    en_nodes = [n for e in en for n in cfg.nodes_for(e)]
-    for c in sends:
-        facts = facts_at(cfg, c)
-        known = False
-        for f in facts:
-            if f.op == "in" and f.pos and X(f.left) == cid and chain(_expand(ex, f.right)) == "self.exit_sockets":
-                known = True
-            # `s = self.exit_sockets.get(cid)` + `s` truthy / `s is not None`
-            if f.op == "truthy" and f.pos and X(f.left) == reg:
-                known = True
-            if f.op == "is" and not f.pos and {X(f.left), X(f.right)} == {reg, "None"}:
-                known = True
-        ctx.check(known and X(c.func.value) == reg, "previous-hop", ex, c,
+    for fr, c in sends:
+        ctx.check(xsym.verdict(c, "known") and xsym.verdict(c, "recv"), "previous-hop", fr.fi, c,
                   "sendto only on the exit socket registered under this circuit id",
-                  "data is handed to an exit socket other than the one registered for the cell's circuit id")
-        # reaching sendto with a disabled socket must have gone through the IP comparison: every path to sendto
-        # passes either `enabled` truthy or the enable() call
-        enabled_edges = lambda u, v, lab: _enabled_edge(u, lab, lambda e: X(e) == f"{reg}.enabled")  # noqa: E731
-        for sn in cfg.nodes_for(c):
-            r = cfg.reach(cut_nodes=en_nodes, cut_edge=enabled_edges)
-            ctx.check(sn not in r, "previous-hop", ex, c, "send requires an enabled socket or the checked enable()",
-                      "data can be sent through a socket that was not enabled by the previous-hop check")
+                  "data is handed to an exit socket other than the one registered for the cell's circuit id",
+                  xsym.site_facts.get(id(c), []))
+        # reaching sendto with a disabled socket must have gone through the IP comparison: every path to sendto passed
+        # either `enabled` truthy or the enable() call
+        ctx.check(xsym.verdict(c, "enabled"), "previous-hop", fr.fi, c, "send requires an enabled socket or the checked enable()",
+                  "data can be sent through a socket that was not enabled by the previous-hop check", xsym.site_facts.get(id(c), []))
     for m, fi, c in repo.callers_of_name("enable"):
-        if fi is None or not fi.module.relpath.startswith("ipv8/messaging/anonymization/"):
+        if fi is None or not fi.module.relpath.startswith(ANON):
             continue
-        ctx.check(fi.qualname == "TunnelCommunity.exit_data", "previous-hop.who", fi, c, "enable() called only from exit_data",
-                  "an exit socket is enabled around the previous-hop check")
+        ctx.check(fi.qualname == "TunnelCommunity.exit_data" or _via_helper(ctx, xsym, fi, c), "previous-hop.who", fi, c,
+                  "enable() called only from exit_data", "an exit socket is enabled around the previous-hop check")
     # `enabled` written only by enable()
     for m in repo.modules.values():
-        if not m.relpath.startswith("ipv8/messaging/anonymization/"):
+        if not m.relpath.startswith(ANON):
             continue
         for n in ast.walk(m.tree):
             if isinstance(n, (ast.Assign, ast.AnnAssign, ast.AugAssign)):
@@ -466,170 +1983,321 @@ def rule_null_and_prev_hop(ctx: Ctx) -> None:
                                   "`enabled` is set outside TunnelExitSocket.enable")
 
 
+def rule_hop_origin(ctx: Ctx) -> None:
+    """The `hop.address` that exit_data's previous-hop comparison reads is the address the CREATE cell came from, held by a
+    Peer object made for this circuit: the exit socket's Hop wraps a `Peer(key, <address parameter>)` built where the socket
+    is created, and that parameter is the source address of the CREATE handler.  A Peer obtained from somewhere else (the
+    network's peer table, a cache) is shared: its address is rewritten in place when that key is seen from another address,
+    and the comparison then no longer concerns the circuit's previous hop."""
+    repo = ctx.repo
+    jc = repo.method("TunnelCommunity", "join_circuit", TC)
+    addr_param = jc.params()[2]
+
+    def ctor_tag(n: ast.AST) -> str | None:
+        if isinstance(n, ast.Call) and (chain(n.func) or "").split(".")[-1] == "TunnelExitSocket":
+            return "create"
+        if isinstance(n, ast.Call) and call_name(n) == "join_circuit":
+            return "join"
+        return None
+
+    def on_create_socket(sym: _Sym, fr: _Frame, c: ast.Call, tag: str, st: _St) -> dict:
+        if tag != "create":
+            return {}
+        hop = arg(c, 1, "hop")
+        xh = sym.C(fr, hop, st) if hop is not None else None
+        peer = arg(xh, 0, "peer") if isinstance(xh, ast.Call) and chain(xh.func) == "Hop" else None
+        a = arg(peer, 1, "address") if isinstance(peer, ast.Call) and chain(peer.func) == "Peer" else None
+        return {"origin": isinstance(a, ast.Name) and a.id == addr_param}
+    sym = _sim(ctx, "join_circuit", lambda: _Sym(ctx, jc, ctor_tag, on_create_socket))
+    made = ctx.anchor(sym.sites("create"), "TunnelExitSocket(...) construction reached from join_circuit")
+    for fr, c in made:
+        ctx.check(sym.verdict(c, "origin"), "previous-hop.origin", fr.fi, c,
+                  f"the exit socket's hop is Hop(Peer(key, {addr_param}), ..): a Peer made for this circuit from the CREATE's source address",
+                  "the exit socket's previous hop is not a Peer constructed here from the address the CREATE cell came from: a shared / "
+                  "looked-up Peer has its address rewritten in place when its key shows up elsewhere, so the IP that exit_data compares "
+                  "sock_addr with (hop.address) stops being the circuit's previous hop and other senders can open the outside socket",
+                  sym.site_facts.get(id(c), []))
+    for m, fi, c in repo.callers_of_name("TunnelExitSocket"):
+        if m.relpath.startswith(ANON) and fi is not None:
+            ctx.check(fi.qualname == "TunnelCommunity.join_circuit" or _via_helper(ctx, sym, fi, c), "previous-hop.origin", fi, c,
+                      "exit sockets are created only by join_circuit", "an exit socket is created outside join_circuit: its previous hop is not "
+                      "tied to the source address of a CREATE cell")
+    oc = repo.method("TunnelCommunity", "on_create", TC)
+    src_param = oc.params()[1]
+
+    def on_join(sym2: _Sym, fr: _Frame, c: ast.Call, tag: str, st: _St) -> dict:
+        if tag != "join":
+            return {}
+        a = arg(c, 1, addr_param)
+        xa = sym2.C(fr, a, st) if a is not None else None
+        return {"source": isinstance(xa, ast.Name) and xa.id == src_param}
+    osym = _sim(ctx, "on_create", lambda: _Sym(ctx, oc, ctor_tag, on_join))
+    joins = ctx.anchor(osym.sites("join"), "join_circuit call reached from on_create")
+    for fr, c in joins:
+        ctx.check(osym.verdict(c, "source"), "previous-hop.origin", fr.fi, c,
+                  f"join_circuit is given the CREATE cell's source address ({src_param})",
+                  "join_circuit is called with an address other than the one the CREATE cell came from: the exit socket's previous hop "
+                  "(hop.address, compared by exit_data before opening the outside socket) is then not the sender of the CREATE")
+    for m, fi, c in repo.callers_of_name("join_circuit"):
+        if m.relpath.startswith(ANON) and fi is not None:
+            ctx.check(fi.qualname == "TunnelCommunity.on_create" or _via_helper(ctx, osym, fi, c), "previous-hop.origin", fi, c,
+                      "join_circuit called only from the CREATE handler", "join_circuit is called from outside on_create")
+
+
 # ------------------------------------------------------------------------------------------ classifiers
-# A classifier is a function of a few inspected QUANTITIES of its argument (its length, constant byte slices, fields unpacked
-# at constant offsets, bit fields of those) that are only ever compared with constants.  The documented behaviour is a
-# predicate over those quantities.  Each quantity gets the finite set of values {c-1, c, c+1 : c a constant it is compared
-# with, in the code or in the documentation} (integers) / {the constants, one other value} (byte strings): every region the
-# comparisons can tell apart contains one of them, so agreement on the product of these sets is agreement on all inputs (the
-# quantities are treated as independent, which only adds rows).  How the comparisons are spelt, ordered, negated, split over
-# guard clauses or held in locals does not matter.
-_L, _B0, _B1, _BL = "len(data)", "data[:1]", "data[1:2]", "data[-1:]"
-_T, _V, _E = "unpack_from('!BB', data)[0] >> 4", "unpack_from('!BB', data)[0] & 15", "unpack_from('!BB', data)[1]"
-_A0, _A8 = "unpack_from('!I', data)[0]", "unpack_from('!I', data, 8)[0]"
+# A classifier is a pure function of a few BASE QUANTITIES of its argument: its length, single bytes at constant offsets,
+# big-endian fields at constant offsets, constant multi-byte slices.  Every spelling of a read is brought to one of these
+# (`data[0:1] == b"d"`, `data.startswith(b"d")`, `data[0] == 100`, `unpack_from("!B", data)[0]`; `unpack_from("!I", data, 8)[0]`,
+# `struct.unpack("!I", data[8:12])[0]`, `int.from_bytes(data[8:12], "big")`; `b >> 4`, `b // 16`, `divmod(b, 16)[0]`; `x in range(4)`).
+# The function is walked path by path once (loops over literal tables unrolled, any()/all() over literal sequences, flags,
+# ternaries, new helpers followed); each path is the list of condition outcomes that select it plus the returned expression.
+# The documented behaviour is a predicate over the base quantities.  Each base quantity gets a finite value set: a quantity
+# that is only compared with constants gets {c-1, c, c+1 : c a constant it is compared with in the code or the documentation}
+# (every region the comparisons can tell apart contains one), a byte that enters arithmetic (bit fields) gets all 256 values.
+# Agreement of code and documentation on the product of these sets is agreement on all inputs (quantities are treated as
+# independent, which only adds rows).
+_L, _B0, _B1, _BL = "len(data)", "data[0]", "data[1]", "data[-1]"
+_A0, _A8 = "be(data, 0, 4)", "be(data, 8, 4)"
 CLASSIFIER_SPEC = {
-    # name: ({quantity: constants of the documented tests}, documented predicate over the quantities)
-    "could_be_ipv8": ({_L: [23], _B0: [b"\x00"], _B1: [b"\x01", b"\x02"]},
-                      lambda v: v[_L] >= 23 and v[_B0] == b"\x00" and v[_B1] in (b"\x01", b"\x02")),
-    "could_be_dht": ({_L: [1], _B0: [b"d"], _BL: [b"e"]},
-                     lambda v: v[_L] > 1 and v[_B0] == b"d" and v[_BL] == b"e"),
-    "could_be_utp": ({_L: [20], _T: [0, 4], _V: [1], _E: [0, 3]},
-                     lambda v: v[_L] >= 20 and 0 <= v[_T] <= 4 and v[_V] == 1 and 0 <= v[_E] <= 3),
+    # name: ({base quantity: constants of the documented tests | "all"}, documented predicate over the base quantities)
+    "could_be_ipv8": ({_L: [23], _B0: [0], _B1: [1, 2]},
+                      lambda v: v[_L] >= 23 and v[_B0] == 0 and v[_B1] in (1, 2)),
+    "could_be_dht": ({_L: [1], _B0: [ord("d")], _BL: [ord("e")]},
+                     lambda v: v[_L] > 1 and v[_B0] == ord("d") and v[_BL] == ord("e")),
+    "could_be_utp": ({_L: [20], _B0: "all", _B1: [0, 3]},
+                     lambda v: v[_L] >= 20 and 0 <= (v[_B0] >> 4) <= 4 and (v[_B0] & 15) == 1 and 0 <= v[_B1] <= 3),
     "could_be_udp_tracker": ({_L: [8, 12], _A0: [0, 3], _A8: [0, 3]},
                              lambda v: (v[_L] >= 8 and 0 <= v[_A0] <= 3) or (v[_L] >= 12 and 0 <= v[_A8] <= 3)),
 }
-_INT_OPS = (ast.RShift, ast.LShift, ast.BitAnd, ast.BitOr, ast.BitXor, ast.Add, ast.Sub, ast.Mult, ast.FloorDiv, ast.Mod)
+_BINOPS = {ast.RShift: lambda a, b: a >> b, ast.LShift: lambda a, b: a << b, ast.BitAnd: lambda a, b: a & b, ast.BitOr: lambda a, b: a | b,
+           ast.BitXor: lambda a, b: a ^ b, ast.Add: lambda a, b: a + b, ast.Sub: lambda a, b: a - b, ast.Mult: lambda a, b: a * b,
+           ast.FloorDiv: lambda a, b: a // b, ast.Mod: lambda a, b: a % b}
+_CMP = {ast.Eq: lambda a, b: a == b, ast.NotEq: lambda a, b: a != b, ast.Lt: lambda a, b: a < b, ast.LtE: lambda a, b: a <= b,
+        ast.Gt: lambda a, b: a > b, ast.GtE: lambda a, b: a >= b, ast.In: lambda a, b: a in b, ast.NotIn: lambda a, b: a not in b}
 
 
 def _is_int_const(e: ast.AST) -> bool:
     return isinstance(e, ast.Constant) and isinstance(e.value, int) and not isinstance(e.value, bool)
 
 
-def _quantity_kind(x: ast.AST) -> str | None:
-    """'int' / 'bytes' for a canonical quantity of `data`, None for anything the table cannot give a value domain."""
-    if isinstance(x, ast.Call) and chain(x.func) == "len" and len(x.args) == 1 and chain(x.args[0]) == "data":
-        return "int"
-    if isinstance(x, ast.Subscript):
-        if chain(x.value) == "data":
-            if isinstance(x.slice, ast.Slice):
-                bounds = [b for b in (x.slice.lower, x.slice.upper) if b is not None]
-                if x.slice.step is None and all(const_value(b) is not NOCONST for b in bounds):
-                    return "bytes"
-                return None
-            return "int" if const_value(x.slice) is not NOCONST else None
-        v = x.value
-        if isinstance(v, ast.Call) and chain(v.func) == "unpack_from" and 2 <= len(v.args) <= 3 and not v.keywords \
-                and isinstance(v.args[0], ast.Constant) and chain(v.args[1]) == "data" \
-                and all(_is_int_const(a) for a in v.args[2:]) and _is_int_const(x.slice):
-            return "int"
-        return None
-    if isinstance(x, ast.BinOp) and isinstance(x.op, _INT_OPS):
-        if _is_int_const(x.right) and _quantity_kind(x.left) == "int":
-            return "int"
-        if _is_int_const(x.left) and _quantity_kind(x.right) == "int":
-            return "int"
+def _base_quantity(x: ast.AST) -> str | None:
+    """'len' / 'byte' / 'field' / 'slice' when x is a base quantity of `data` (canonical form), else None"""
+    if isinstance(x, ast.Call) and chain(x.func) == "len" and len(x.args) == 1 and not x.keywords and chain(x.args[0]) == "data":
+        return "len"
+    if isinstance(x, ast.Call) and chain(x.func) == "be" and len(x.args) == 3 and chain(x.args[0]) == "data" \
+            and all(_is_int_const(a) for a in x.args[1:]):
+        return "field"
+    if isinstance(x, ast.Subscript) and chain(x.value) == "data":
+        if isinstance(x.slice, ast.Slice):
+            bounds = [b for b in (x.slice.lower, x.slice.upper) if b is not None]
+            return "slice" if x.slice.step is None and all(const_value(b) is not NOCONST for b in bounds) else None
+        return "byte" if isinstance(const_value(x.slice), int) else None
     return None
 
 
-def _shape(text: str) -> str:
-    """A quantity with its numbers blanked: `data[1:2]` and `data[2:3]` are the same kind of quantity."""
-    return re.sub(r"\b\d+\b", "#", text)
+def _scan_quantities(x: ast.AST, out: dict, where: str) -> None:
+    """base quantities in canonical expression x: text -> {"kind", "consts", "arith"}; anything else that mentions `data` is
+    not a quantity the table can give values to"""
+    def visit(n: ast.AST, par: ast.AST | None) -> None:
+        k = _base_quantity(n)
+        if k is not None:
+            q = out.setdefault(norm(n), {"kind": k, "consts": set(), "arith": False})
+            if isinstance(par, ast.Compare):
+                ops = [par.left, *par.comparators]
+                others = [o for o in ops if o is not n]
+                for o in others:
+                    v = const_value(o)
+                    if v is NOCONST and isinstance(o, (ast.List, ast.Set, ast.Tuple)):
+                        vs = [const_value(e) for e in o.elts]
+                        v = tuple(vs) if all(e is not NOCONST for e in vs) else NOCONST
+                    if v is NOCONST:
+                        q["arith"] = True           # compared with something that is not a constant
+                    else:
+                        q["consts"].update(v if isinstance(v, tuple) else [v])
+                if any(isinstance(op, (ast.Is, ast.IsNot)) for op in par.ops):
+                    raise AnalysisError(f"undecided: identity test `{norm(par)}` in classifier {where}")
+                if k == "slice" and any(not isinstance(op, (ast.Eq, ast.NotEq, ast.In, ast.NotIn)) for op in par.ops):
+                    raise AnalysisError(f"undecided: classifier {where} orders a byte slice in `{norm(par)}`")
+            else:
+                q["arith"] = True
+            return
+        if isinstance(n, ast.Name) and n.id == "data":
+            raise AnalysisError(f"undecided: classifier {where} inspects `{norm(par if par is not None else n)[:80]}`, not a length / byte / "
+                                f"big-endian field / constant slice of its argument")
+        for c in ast.iter_child_nodes(n):
+            visit(c, n)
+    visit(x, None)
 
 
-class _QuantityTable(TableEvaluator):
-    """Evaluates a classifier body for concrete values of its quantities (env['__atoms__']: quantity text -> value)."""
-
-    def __init__(self, repo, fi: FuncInfo) -> None:
-        super().__init__(fi, lambda e: None, on_effect=_classifier_effect)
-        self.repo = repo
-        self.dname = fi.params()[0]
-
-    # -- operands
-    def operand(self, e: ast.AST):
-        """('const', value) | ('quantity', text, kind)"""
-        x = _canon(_expand(self.fi, e), rename={self.dname: "data"} if self.dname != "data" else None)
-        v = const_value(x)
-        if v is NOCONST and isinstance(x, (ast.List, ast.Set, ast.Tuple)):
-            vs = [const_value(el) for el in x.elts]
-            if all(el is not NOCONST for el in vs):
-                v = tuple(vs)
-        if v is not NOCONST:
-            return ("const", v)
-        if not any(isinstance(n, ast.Name) and n.id == "data" for n in ast.walk(x)):
-            v = self.repo.resolve_const(self.fi.module, e, self.fi.cls)
-            if v is not NOCONST:
-                return ("const", v)
-        kind = _quantity_kind(x)
-        if kind is None:
-            raise AnalysisError(f"undecided: classifier {self.fi.name} compares `{norm(x)}`, not a length / constant slice / "
-                                f"unpacked field of its argument")
-        return ("quantity", norm(x), kind)
-
-    def compares(self):
-        for n in walk_no_nested(self.fi.node):
-            if isinstance(n, ast.Compare):
-                yield n, [self.operand(o) for o in [n.left, *n.comparators]]
-
-    def quantities(self) -> dict[str, tuple[str, set]]:
-        """quantity text -> (kind, constants it is compared with)"""
-        out: dict[str, tuple[str, set]] = {}
-        for n, ops in self.compares():
-            qs = [o for o in ops if o[0] == "quantity"]
-            consts = set()
-            for o in ops:
-                if o[0] == "const":
-                    consts |= set(o[1]) if isinstance(o[1], tuple) else {o[1]}
-            for i, o in enumerate(ops):
-                if o[0] != "quantity":
-                    continue
-                nb = [ops[j] for j in (i - 1, i + 1) if 0 <= j < len(ops)]
-                if any(b[0] == "quantity" for b in nb):
-                    raise AnalysisError(f"undecided: classifier {self.fi.name} compares two inspected quantities with each "
-                                        f"other in `{norm(n)}`")
-                out.setdefault(o[1], (o[2], set()))[1].update(consts)
-            if not qs:
-                continue
-            for op, (a, b) in zip(n.ops, zip(ops, ops[1:])):
-                q = a if a[0] == "quantity" else b
-                if q[0] == "quantity" and q[2] == "bytes" and not isinstance(op, (ast.Eq, ast.NotEq, ast.In, ast.NotIn)):
-                    raise AnalysisError(f"undecided: classifier {self.fi.name} orders a byte slice in `{norm(n)}`")
-                if isinstance(op, (ast.Is, ast.IsNot)):
-                    raise AnalysisError(f"undecided: identity test `{norm(n)}` in classifier {self.fi.name}")
-        return out
-
-    # -- evaluation
-    def eval(self, e, env):
-        e0 = strip_cast(e)
-        if isinstance(e0, ast.Compare):
-            vals = []
-            for o in [e0.left, *e0.comparators]:
-                r = self.operand(o)
-                if r[0] == "const":
-                    vals.append(r[1])
-                elif r[1] in env["__atoms__"]:
-                    vals.append(env["__atoms__"][r[1]])
-                else:
-                    raise AnalysisError(f"decision table: quantity {r[1]} has no value")
-            try:
-                for op, a, b in zip(e0.ops, vals, vals[1:]):
-                    if not _CMP[type(op)](a, b):
-                        return False
-            except (TypeError, KeyError) as ex:
-                raise AnalysisError(f"undecided: cannot evaluate `{norm(e0)}` in classifier {self.fi.name}: {ex}") from None
-            return True
-        return super().eval(e, env)
+def _ev(x: ast.AST, val: dict, where: str):
+    """value of canonical expression x for concrete values of the base quantities"""
+    if isinstance(x, ast.Constant):
+        return x.value
+    if isinstance(x, (ast.Tuple, ast.List, ast.Set)):
+        return tuple(_ev(e, val, where) for e in x.elts)
+    if _base_quantity(x) is not None:
+        return val[norm(x)]
+    if isinstance(x, ast.UnaryOp):
+        v = _ev(x.operand, val, where)
+        if isinstance(x.op, ast.Not):
+            return not v
+        if isinstance(x.op, ast.USub):
+            return -v
+        if isinstance(x.op, ast.Invert):
+            return ~v
+    if isinstance(x, ast.BinOp) and type(x.op) in _BINOPS:
+        return _BINOPS[type(x.op)](_ev(x.left, val, where), _ev(x.right, val, where))
+    if isinstance(x, ast.BoolOp):
+        v = None
+        for e in x.values:
+            v = _ev(e, val, where)
+            if bool(v) != isinstance(x.op, ast.And):
+                return v
+        return v
+    if isinstance(x, ast.IfExp):
+        return _ev(x.body if _ev(x.test, val, where) else x.orelse, val, where)
+    if isinstance(x, ast.Compare) and all(type(op) in _CMP for op in x.ops):
+        vals = [_ev(o, val, where) for o in [x.left, *x.comparators]]
+        try:
+            return all(_CMP[type(op)](a, b) for op, a, b in zip(x.ops, vals, vals[1:]))
+        except TypeError as ex:
+            raise AnalysisError(f"undecided: cannot evaluate `{norm(x)}` in classifier {where}: {ex}") from None
+    if isinstance(x, ast.Call) and chain(x.func) in ("bool", "int", "any", "all") and len(x.args) == 1 and not x.keywords:
+        v = _ev(x.args[0], val, where)
+        return {"bool": bool, "int": int, "any": any, "all": all}[chain(x.func)](v)
+    raise AnalysisError(f"undecided: classifier {where} decides on `{norm(x)[:80]}`, which is not a comparison of its inspected quantities")
 
 
-_CMP = {ast.Eq: lambda a, b: a == b, ast.NotEq: lambda a, b: a != b, ast.Lt: lambda a, b: a < b, ast.LtE: lambda a, b: a <= b,
-        ast.Gt: lambda a, b: a > b, ast.GtE: lambda a, b: a >= b, ast.In: lambda a, b: a in b, ast.NotIn: lambda a, b: a not in b}
+def _quantity_domain(q: str, info: dict, hint, int_consts: set) -> list:
+    kind, consts = info["kind"], set(info["consts"])
+    if hint == "all":
+        info = {**info, "arith": True}
+    elif hint:
+        consts |= set(hint)
+    if kind == "slice":
+        cs = sorted(c for c in consts if isinstance(c, bytes))
+        other = b"\xfe"
+        while other in cs:
+            other += b"\xfe"
+        return [*cs, other]
+    ints = [c for c in consts if isinstance(c, int) and not isinstance(c, bool)]
+    hi = {"len": None, "byte": 255, "field": None}[kind]
+    if kind == "field":
+        hi = 256 ** int(q.rsplit(",", 1)[1].strip(" )")) - 1
+    if info["arith"]:
+        if kind == "byte":
+            return list(range(256))
+        if kind == "len":
+            return list(range(max([c for c in int_consts if c < 4096] or [0]) + 3))
+        raise AnalysisError(f"undecided: the multi-byte field {q} enters arithmetic / is compared with a non-constant")
+    dom = {c + d for c in ints for d in (-1, 0, 1)} | {0}
+    if hi is not None:
+        dom.add(hi)
+    return sorted(v for v in dom if v >= 0 and (hi is None or v <= hi))
 
 
-def _domain(kind: str, consts) -> list:
-    if kind == "int":
-        cs = [c for c in consts if isinstance(c, int) and not isinstance(c, bool)]
-        return sorted({c + d for c in cs for d in (-1, 0, 1)}) or [0]
-    cs = sorted(c for c in consts if isinstance(c, bytes))
-    other = b"\xfe"
-    while other in cs:
-        other += b"\xfe"
-    return [*cs, other]
+class _QSym(_Sym):
+    """The walk of one classifier: its paths (conditions + returned expression) and the length established at every read."""
 
+    def __init__(self, ctx: Ctx, fi: FuncInfo) -> None:
+        super().__init__(ctx, fi, self._read_site, self._on_read)
+        self.reads: dict[int, tuple[ast.AST, int, int]] = {}       # id(node) -> (node, needed length, least length established)
+        self.summary: list[tuple[tuple, ast.AST]] = []
 
-class _AliasLengths(LengthAnalysis):
-    """LengthAnalysis that also reads a length guard through a local holding `len(x)` (`size = len(data); if size >= 8`)."""
+    def run(self) -> "_QSym":
+        fr = _Frame(self.fi, self.ctx.cfg(self.fi))
+        st = _St()
+        for p in self.fi.params():
+            st.env[p] = ast.Name(id=p, ctx=ast.Load())
+        st.env[self.fi.params()[0]] = ast.Name(id="data", ctx=ast.Load())
+        self.root = fr
+        self.summary = [(st2.trail, ret) for kind, ret, st2 in self._paths(fr, st) if kind == "ret"]
+        return self
 
-    def _len_of(self, e: ast.AST) -> str | None:
-        return super()._len_of(_expand(self.fi, e))
+    def _eval_node(self, fr: _Frame, u, st: _St) -> list:
+        # reads that could raise are judged by the guarded-reads instances below; the decision table is about completed runs
+        return [(lab, s) for lab, s in super()._eval_node(fr, u, st) if lab != "exc"]
+
+    # -- reads
+    @staticmethod
+    def _read_site(n: ast.AST) -> str | None:
+        if isinstance(n, ast.Subscript) and isinstance(n.ctx, ast.Load) and not isinstance(n.slice, ast.Slice):
+            return "index"
+        if isinstance(n, ast.Call) and (chain(n.func) or "") in ("unpack_from", "struct.unpack_from", "unpack", "struct.unpack", "int.from_bytes"):
+            return "unpack"
+        return None
+
+    def _need(self, fr: _Frame, n: ast.AST, tag: str, st: _St) -> int | None:
+        """bytes of `data` the read needs to mean what it says (None: not a read of the argument)"""
+        def base(e: ast.AST) -> tuple[int, int | None] | None:      # (start offset in data, end or None)
+            x = self.C(fr, e, st)
+            if chain(x) == "data" and isinstance(x, ast.Name):
+                return 0, None
+            if isinstance(x, ast.Subscript) and isinstance(x.value, ast.Name) and x.value.id == "data" and isinstance(x.slice, ast.Slice) \
+                    and x.slice.step is None:
+                lo = 0 if x.slice.lower is None else const_value(x.slice.lower)
+                hi = None if x.slice.upper is None else const_value(x.slice.upper)
+                if isinstance(lo, int) and lo >= 0 and (hi is None or (isinstance(hi, int) and hi >= lo)):
+                    return lo, hi
+            return None
+        if tag == "index":
+            b = base(n.value)
+            i = const_value(self.C(fr, n.slice, st))
+            if b is None or not isinstance(i, int) or isinstance(i, bool):
+                return None
+            return b[0] + i + 1 if i >= 0 else (b[0] - i if b[1] is None else None)
+        c = chain(n.func) or ""
+        if c == "int.from_bytes":
+            b = base(n.args[0]) if n.args else None
+            return None if b is None or b[1] is None else b[1]        # a truncated slice is silently read as a smaller field
+        fmt = const_value(self.C(fr, n.args[0], st)) if n.args else NOCONST
+        buf = arg(n, 1, "buffer")
+        if not isinstance(fmt, str) or buf is None:
+            return None
+        try:
+            import struct
+            size = struct.calcsize(fmt)
+        except Exception:  # noqa: BLE001
+            return None
+        b = base(buf)
+        if b is None:
+            return None
+        off = 0
+        if c.endswith("unpack_from"):
+            o = arg(n, 2, "offset")
+            off = const_value(self.C(fr, o, st)) if o is not None else 0
+            if not isinstance(off, int) or off < 0:
+                return None
+        return b[0] + off + size
+
+    @staticmethod
+    def _min_len(st: _St) -> int:
+        best = 0
+        for f in st.fobj.values():
+            l, r = norm(f.left), norm(f.right) if f.right is not None else None
+            lc, rc = const_value(f.left), const_value(f.right) if f.right is not None else NOCONST
+            if f.op == "truthy" and f.pos and l in ("data", "len(data)"):
+                best = max(best, 1)
+            elif f.op == "lt":
+                if l == "len(data)" and isinstance(rc, int) and not f.pos:
+                    best = max(best, rc)                 # not (len < n)
+                if r == "len(data)" and isinstance(lc, int) and f.pos:
+                    best = max(best, lc + 1)             # n < len
+            elif f.op == "eq":
+                for a, c in ((l, rc), (r, lc)):
+                    if a == "len(data)" and isinstance(c, int):
+                        best = max(best, c if f.pos else (1 if c == 0 else 0))
+        return best
+
+    def _on_read(self, sym: _Sym, fr: _Frame, n: ast.AST, tag: str, st: _St) -> dict:
+        need = self._need(fr, n, tag, st)
+        if need is None:
+            return {}
+        have = self._min_len(st)
+        old = self.reads.get(id(n))
+        if old is None or (have < need and (old[2] >= old[1] or need - have > old[1] - old[2])):
+            self.reads[id(n)] = (n, need, have)             # keep the worst evaluation of this read
+        return {"guard": have >= need}
 
 
 def rule_classifiers(ctx: Ctx) -> None:
@@ -642,26 +2310,8 @@ def rule_classifiers(ctx: Ctx) -> None:
     ctx.check(not local_defs(bt, data), "classifier-shape", bt, bt.node, "could_be_bt inspects its own argument",
               "could_be_bt rebinds its data parameter")
 
-    def bt_atom(e):
-        e = strip_cast(e)
-        if not (isinstance(e, ast.Call) or (isinstance(e, ast.Name) and isinstance(e.ctx, ast.Load))):
-            return None
-        x = _expand(bt, e)
-        if isinstance(x, ast.Call) and len(x.args) == 1 and not x.keywords and chain(x.args[0]) == data:
-            tg = {t.qualname for t in repo.resolve_call(bt, x)}
-            if len(tg) == 1 and next(iter(tg)).startswith("DataChecker.could_be_"):
-                return next(iter(tg)).split(".", 1)[1]
-        return None
-    want_atoms = ["could_be_dht", "could_be_udp_tracker", "could_be_utp"]
-    ev = _Table(bt, bt_atom)
-    found = ev.discover()
-    ok = found == want_atoms
-    if ok:
-        for vals in itertools.product([False, True], repeat=3):
-            got = ev.run(dict(zip(want_atoms, vals)))
-            if isinstance(got, Opaque):
-                raise AnalysisError(f"could_be_bt returns an expression the table evaluator cannot decide: {got}")
-            ok = ok and bool(got) == any(vals)
+    bt_atoms = {n: [("truthy", f"DataChecker.{n}({data})", None)] for n in ("could_be_dht", "could_be_udp_tracker", "could_be_utp")}
+    ok = all(got == {any(env.values())} for env, got in _table_rows(ctx, bt, bt_atoms, ()))
     ctx.check(ok, "classifier-shape", bt, bt.node, "could_be_bt = utp(data) or udp_tracker(data) or dht(data)",
               "could_be_bt is no longer exactly the disjunction of the three BitTorrent classifiers on its argument")
     for name, (spec_q, spec) in CLASSIFIER_SPEC.items():
@@ -670,38 +2320,43 @@ def rule_classifiers(ctx: Ctx) -> None:
         dname = fi.params()[0]
         ctx.check(not local_defs(fi, dname), "classifier-shape", fi, fi.node, f"{name} inspects its own argument",
                   f"{name} rebinds its data parameter")
-        ev = _QuantityTable(repo, fi)
-        code_q = ev.quantities()
-        kinds = {q: ("bytes" if isinstance(cs[0], bytes) else "int") for q, cs in spec_q.items()}
-        consts = {q: set(cs) for q, cs in spec_q.items()}
-        for q, (kind, cs) in code_q.items():
-            if q in kinds and kinds[q] != kind:
-                raise AnalysisError(f"classifier {name}: quantity {q} changed its type")
-            kinds.setdefault(q, kind)
-            consts.setdefault(q, set()).update(cs)
-        qs = sorted(kinds)
-        doms = [_domain(kinds[q], consts[q]) for q in qs]
+        sym = _QSym(ctx, fi).run()
+        if not sym.summary:
+            raise AnalysisError(f"undecided: classifier {name} has no returning path")
+        code_q: dict[str, dict] = {}
+        int_consts: set[int] = set()
+        for trail, ret in sym.summary:
+            for x in [ret, *[c for c, _ in trail]]:
+                _scan_quantities(x, code_q, name)
+                int_consts |= {n.value for n in ast.walk(x) if _is_int_const(n)}
+        for cs in spec_q.values():
+            int_consts |= {c for c in cs if isinstance(c, int)} if cs != "all" else set()
+        qinfo = dict(code_q)
+        for q in spec_q:
+            if q not in qinfo:
+                kind = _base_quantity(ast.parse(q, mode="eval").body)
+                qinfo[q] = {"kind": kind, "consts": set(), "arith": False}
+        qs = sorted(qinfo)
+        doms = [_quantity_domain(q, qinfo[q], spec_q.get(q), int_consts) for q in qs]
         rows = 1
         for d in doms:
             rows *= len(d)
-        if rows > 50000:
+        if rows > 200000:
             raise AnalysisError(f"undecided: classifier {name} has a decision table of {rows} rows")
         bad = None
         nbad = 0
         for vals in itertools.product(*doms):
-            env = dict(zip(qs, vals))
-            got = ev.run(env)
-            if isinstance(got, Opaque):
-                raise AnalysisError(f"classifier {name} returns undecidable expression {got}")
-            want = spec(env)
-            if bool(got) != bool(want):
+            val = dict(zip(qs, vals))
+            got = set()
+            for trail, ret in sym.summary:
+                if all(bool(_ev(c, val, name)) == lab for c, lab in trail):
+                    got.add(bool(_ev(ret, val, name)))
+            want = bool(spec(val))
+            if got != {want}:
                 nbad += 1
                 if bad is None:
-                    bad = (env, got, want)
+                    bad = (val, sorted(got), want)
         extra = [q for q in code_q if q not in spec_q]
-        if bad and any(_shape(q) not in {_shape(s) for s in spec_q} for q in extra):
-            # a quantity of a kind the documentation does not mention: cannot tell a re-spelling from a change
-            raise AnalysisError(f"undecided: classifier {name} tests {extra}, not among the documented quantities {sorted(spec_q)}")
         ctx.instance("classifier-shape", fi.where,
                      f"{name}: {rows} rows over {qs} agree with the documented table", ok=bad is None)
         if bad:
@@ -711,30 +2366,24 @@ def rule_classifiers(ctx: Ctx) -> None:
                           f"{bad[1]} (documented {bad[2]})"
                           + (f"; documented quantities no longer tested: {missing}" if missing else "")
                           + (f"; undocumented quantities tested: {extra}" if extra else ""))
-        # guarded reads
-        la = _AliasLengths(repo, fi, ctx.cfg(fi), {})
-        for node, base, need in [*la.index_sites(), *la.unpack_sites()]:
-            if protected(node, fi):
+        # guarded reads: an index / fixed-format unpack / fixed-width int.from_bytes of the argument happens only where the
+        # length it needs has been established (or inside a try that catches the failure)
+        for node, need, have in sym.reads.values():
+            if protected(node, repo.function_of(node) or fi):
                 continue
-            have, used = la.min_len(base, node)
-            ctx.check(have >= need, "classifier-shape", fi, node, f"{name}: `{norm(node)}` needs {need} bytes, guarded with >= {have}",
-                      f"{name} reads `{norm(node)}` (needs {need} bytes) with only len >= {have} established: short payloads raise inside the policy gate", used)
-
-
-def _classifier_effect(s, env, ev) -> None:
-    # `byte1, byte2 = unpack_from("!BB", data)` and try/except wrappers are structural, not decisions
-    if isinstance(s, ast.Assign) and isinstance(s.targets[0], ast.Tuple):
-        return
-    if isinstance(s, ast.Try):
-        ev._block(s.body, env)
-        return
-    raise AnalysisError(f"classifier: unsupported statement `{norm(s)[:60]}`")
+            silent = (chain(node.func) or "") == "int.from_bytes" if isinstance(node, ast.Call) else False
+            ctx.check(have >= need, "classifier-shape", repo.function_of(node) or fi, node,
+                      f"{name}: `{norm(node)}` needs {need} bytes, guarded with >= {have}",
+                      f"{name} reads `{norm(node)}` (needs {need} bytes) with only len >= {have} established: "
+                      + ("a shorter payload is silently read as a smaller / empty field and misclassified" if silent else
+                         "short payloads raise inside the policy gate"))
 
 
 def run(ctx: Ctx) -> None:
     rule_policy_table(ctx)
     rule_gates(ctx)
     rule_null_and_prev_hop(ctx)
+    rule_hop_origin(ctx)
     rule_classifiers(ctx)
     ctx.assume("the DataChecker byte tests are the definition of BitTorrent-/IPv8-shaped traffic (documented in their docstrings)")
     ctx.assume("asyncio DatagramTransport.sendto is the only emission primitive of an exit socket (checked: transports are used only inside TunnelExitSocket)")
@@ -794,6 +2443,21 @@ WITNESSES = [
     {"name": "tracker length guard weakened", "file": ES, "rule": "classifier-shape",
      "old": "or (len(data) >= 12 and 0 <= unpack_from(\"!I\", data, 8)[0] <= 3))",
      "new": "or (len(data) >= 8 and 0 <= unpack_from(\"!I\", data, 8)[0] <= 3))"},
+    {"name": "exit hop reuses the network's shared Peer (seeded C06-m7)", "file": TC, "rule": "previous-hop.origin",
+     "old": "        peer = Peer(create_payload.node_public_key, previous_node_address)\n",
+     "new": "        peer = (self.network.get_verified_by_public_key_bin(create_payload.node_public_key)\n"
+            "                or Peer(create_payload.node_public_key, previous_node_address))\n"},
+    {"name": "join_circuit given another address than the CREATE's source", "file": TC, "rule": "previous-hop.origin",
+     "old": "            self.join_circuit(payload, source_address)", "new": "            self.join_circuit(payload, self.my_peer.address)"},
+    {"name": "tracker action read from an unguarded slice (seeded C06-m9)", "file": ES, "rule": "classifier-shape",
+     "old": "or (len(data) >= 12 and 0 <= unpack_from(\"!I\", data, 8)[0] <= 3))",
+     "new": "or int.from_bytes(data[8:12], \"big\") <= 3)"},
+    {"name": "previous-hop test in a compound guard with the wrong connective", "file": TC, "rule": "previous-hop",
+     "old": "        if not self.exit_sockets[circuit_id].enabled:\n            # Check that we got the data from the correct IP.\n"
+            "            if sock_addr[0] == self.exit_sockets[circuit_id].hop.address[0]:\n                self.exit_sockets[circuit_id].enable()\n"
+            "            else:\n",
+     "new": "        if self.exit_sockets[circuit_id].enabled or sock_addr[0] != self.exit_sockets[circuit_id].hop.address[0]:\n"
+            "            self.exit_sockets[circuit_id].enable()\n        else:\n            if True:\n"},
     {"name": "could_be_bt drops dht", "file": ES, "rule": "classifier-shape",
      "old": "                or DataChecker.could_be_udp_tracker(data)\n                or DataChecker.could_be_dht(data))",
      "new": "                or DataChecker.could_be_udp_tracker(data)\n                or DataChecker.could_be_ipv8(data))"},
